@@ -1,95 +1,81 @@
 import TaskModel.Remote.Lemmas
 import TaskModel.Remote.Chain
+import TaskModel.Remote.TreeLemmas
 import TaskModel.Remote.Tie
 /-!
 # C20 — Remote Taskfiles: nothing unapproved runs, and the cache keeps tasks runnable
 
-Property theorems only; the model is `TaskModel.Remote.Model` (`invoke`, the repaired
-fallback rule of fix F16), helper lemmas are in `TaskModel.Remote.Lemmas`, the tie to the
-source text is `TaskModel.Remote.Tie` (`remote_skeleton_ok` …, regenerated on every run)
-plus the correspondence domain `remote` (harness/remote.go: the real CLI against a loopback
-HTTP server over sequences of server states × flags × prompt answers).
+Property theorems only; the model is `TaskModel.Remote.Model` (`invoke`: the repaired fallback
+rule of fix F16, the checksum recheck of cached copies, the redirect policy, the stored location
+of directory-style URLs), helper lemmas are in `TaskModel.Remote.Lemmas`, the tie to the source
+text is `TaskModel.Remote.Tie` (`remote_skeleton_ok` …, regenerated on every run) plus the
+correspondence domain `remote` (harness/remote.go: the real CLI against loopback HTTP and TLS
+servers over sequences of server states × flags × prompt answers × cache damage).
 
 The second part (from "Chains" on) lifts every property to invocations that read a remote
 Taskfile *and* the remote Taskfile it includes, under the one `--timeout` deadline of the
 invocation (`TaskModel.Remote.Chain`, `invokeChain`; driver op `remote.chain`).
 
-All statements are over **arbitrary histories** (`List Step`, no length bound) starting
-from the empty cache, and over an arbitrary checksum function `sha` — nothing is assumed
-about it.  What is proved is about *checksums*: "the checksum of what runs is the approved
-one".  That an approved checksum stands for approved *content* is collision resistance of
-SHA-256, outside the model.
+All statements are over **arbitrary states or arbitrary histories** (`List Ev`: complete
+invocations, invocations killed between the cache writes, cached copies replaced / truncated /
+removed by something else; no length bound) and over an arbitrary checksum function `sha` — nothing
+is assumed about it.  What is proved is about *checksums*: "the checksum of what runs is the
+approved one".  That an approved checksum stands for approved *content* is collision resistance
+of SHA-256, outside the model.
+
+**Trust no longer rests on an invariant between the cache files.**  Before fix R8-3 the theorems
+needed `Inv` ("the cached copy is one whose checksum is the stored one"), true only of histories
+in which every invocation completes its three writes.  Now `readRemote` recomputes the checksum of
+the cached copy (`usable`), `TrustStep` holds in *every* state, and the stored checksum — which
+only Task writes, only after approval (`C20_sum_approved`) — is the single anchor.
 -/
 namespace Props.C20
 open TaskModel.Remote
 
-/-- history invariant: a cached copy, when present, is one whose checksum is the approved one -/
-def Inv (sha : Content → Sum) (s : RState) : Prop := ∀ u, EInv sha (s.ent u)
-
-theorem inv_init (sha) : Inv sha RState.init := fun _ => EInv_empty sha
-
-theorem inv_invokeWith (legacy sha s st) (h : Inv sha s) : Inv sha (invokeWith legacy sha s st).2 := by
-  intro v
-  cases hg : gate st with
-  | some code => rw [invokeWith_gate _ _ _ _ _ hg]; exact h v
-  | none =>
-    have hw : ∀ v, EInv sha (((s.tick st.dt).set st.url.id (stepRead legacy sha s st).2).ent v) := by
-      intro v
-      by_cases hv : v = st.url.id
-      · subst hv; rw [set_ent_same]; exact readRemote_EInv _ _ _ _ _ _ _ (h _)
-      · rw [set_ent_other _ _ _ _ hv]; exact h v
-    cases hc : st.flags.clearCache with
-    | false => rw [invokeWith_open _ _ _ _ hg hc]; exact hw v
-    | true =>
-      rcases invokeWith_clear legacy sha s st hg hc with ⟨c, _, he⟩ | ⟨_, he⟩
-      · rw [he]; exact EInv_empty sha
-      · rw [he]; exact hw v
-
-theorem inv_runWith (legacy sha) (h : List Step) : ∀ s, Inv sha s → Inv sha (runWith legacy sha s h).2 := by
-  induction h with
-  | nil => intro s hs; exact hs
-  | cons st rest ih =>
-    intro s hs
-    simp only [runWith]
-    exact ih _ (inv_invokeWith legacy sha s st hs)
-
-/-- the invariant holds after every history -/
-theorem inv_reach (sha) (h : List Step) : Inv sha (reach sha h) :=
-  inv_runWith false sha h _ (inv_init sha)
-
 /-! ## Trust -/
 
-/-- What C20 demands of one invocation `st` made in state `s` (`u` = the URL's cache slot). -/
+/-- "a prompt for THIS checksum was due in this invocation and was accepted, or `--yes` was given":
+the invocation gets past the gate, goes to the network, is offered content with checksum `x`, that
+checksum is not the stored one (`ChecksumPrompt` returns a prompt: it is shown, or — under `--yes` —
+printed with "[assuming yes]"), and the prompt is passed. -/
+def ApprovedNow (sha : Content → Sum) (s : RState) (st : Step) (x : Sum) : Prop :=
+  gate st = none ∧ wantsFetch sha (s.now + st.dt) (s.ent st.url.id) st.flags = true ∧
+  (∃ c, net st.flags st.server = .content c ∧ sha c = x) ∧
+  needsPrompt (s.ent st.url.id) x = true ∧ approves st.flags st.answer = true
+
+/-- What C20 demands of one invocation `st` made in state `s`. -/
 structure TrustStep (sha : Content → Sum) (s : RState) (st : Step) : Prop where
-  /-- content handed on for execution has the checksum that is the approved one at that moment -/
+  /-- content handed on for execution has the checksum that is the stored (approved) one at that moment -/
   ran_is_approved : ∀ c, (invoke sha s st).1 = .run c →
     ((invoke sha s st).2.ent st.url.id).sum = some (sha c)
-  /-- … and that checksum was approved before, or is approved in this very invocation -/
+  /-- … and that checksum was the stored one before, or a prompt for exactly this checksum was
+  due and passed (accepted, or `--yes`) in this very invocation.  (An `accept` typed at a terminal
+  when no prompt was shown approves nothing.) -/
   ran_new_needs_approval : ∀ c, (invoke sha s st).1 = .run c →
-    (s.ent st.url.id).sum = some (sha c) ∨ approves st.flags st.answer = true
-  /-- the approved checksum of any URL changes only in an invocation for that URL in which the
-  user accepted the prompt or gave `--yes`, to the checksum of the content just downloaded
-  (which is then what runs) — or the whole cache is dropped by `--clear-cache` -/
+    (s.ent st.url.id).sum = some (sha c) ∨ ApprovedNow sha s st (sha c)
+  /-- the stored checksum of any URL changes only in an invocation for that URL in which a prompt
+  for the new checksum was passed, to the checksum of the content just downloaded (which is then
+  what runs) — or the whole cache is dropped by `--clear-cache` -/
   change_needs_approval : ∀ v, ((invoke sha s st).2.ent v).sum ≠ (s.ent v).sum →
-    (v = st.url.id ∧ approves st.flags st.answer = true ∧
-      ∃ c, net st.flags st.server = .content c ∧ (invoke sha s st).1 = .run c ∧
-        ((invoke sha s st).2.ent v).sum = some (sha c)) ∨
+    (v = st.url.id ∧ ∃ c, ApprovedNow sha s st (sha c) ∧ net st.flags st.server = .content c ∧
+        (invoke sha s st).1 = .run c ∧ ((invoke sha s st).2.ent v).sum = some (sha c)) ∨
     (st.flags.clearCache = true ∧ (invoke sha s st).1 = .cleared ∧ ((invoke sha s st).2.ent v).sum = none)
-  /-- new or changed content without approval: exit code 104, nothing handed on, no cache
-  file of any URL touched -/
+  /-- new or changed content without approval: exit code 104, **nothing executed** (the trace the
+  harness records is empty), no cache file of any URL touched -/
   unapproved_refused : ∀ c, gate st = none →
-    wantsFetch (s.now + st.dt) (s.ent st.url.id) st.flags = true →
+    wantsFetch sha (s.now + st.dt) (s.ent st.url.id) st.flags = true →
     net st.flags st.server = .content c → (s.ent st.url.id).sum ≠ some (sha c) →
     approves st.flags st.answer = false →
-    (invoke sha s st).1 = .error 104 ∧ ∀ v, (invoke sha s st).2.ent v = s.ent v
+    (invoke sha s st).1.exit = 104 ∧ (invoke sha s st).1.trace = [] ∧
+    ∀ v, (invoke sha s st).2.ent v = s.ent v
 
 private theorem stepRead_unapproved (legacy sha s st c)
-    (hw : wantsFetch (s.now + st.dt) (s.ent st.url.id) st.flags = true)
+    (hw : wantsFetch sha (s.now + st.dt) (s.ent st.url.id) st.flags = true)
     (hn : net st.flags st.server = .content c) (hs : (s.ent st.url.id).sum ≠ some (sha c))
     (ha : approves st.flags st.answer = false) :
     stepRead legacy sha s st = (.error 104, s.ent st.url.id) := by
   unfold stepRead
-  rw [readRemote_of_wantsFetch _ _ _ _ _ _ _ hw, hn]
+  rw [readRemote_of_wantsFetch _ _ _ _ _ _ _ _ hw, hn]
   have hp : needsPrompt (s.ent st.url.id) (sha c) = true := by
     cases hp : needsPrompt (s.ent st.url.id) (sha c) with
     | true => rfl
@@ -111,18 +97,20 @@ private theorem run_inv (legacy sha s st c) (h : (invokeWith legacy sha s st).1 
       · rw [he] at h; cases h
       · rw [he] at h; exact absurd h (hne c)
 
-theorem trustStep_of_inv (legacy : Bool) (sha : Content → Sum) (s : RState) (st : Step) (hi : Inv sha s) :
+/-- what runs has the stored checksum afterwards; that checksum was stored before or a prompt for it
+was passed now — **in any state** (torn, damaged, whatever): no invariant is needed -/
+theorem trust_of_run (legacy : Bool) (sha : Content → Sum) (s : RState) (st : Step) :
     (∀ c, (invokeWith legacy sha s st).1 = .run c →
       ((invokeWith legacy sha s st).2.ent st.url.id).sum = some (sha c) ∧
-      ((s.ent st.url.id).sum = some (sha c) ∨ approves st.flags st.answer = true)) := by
+      ((s.ent st.url.id).sum = some (sha c) ∨ ApprovedNow sha s st (sha c))) := by
   intro c h
-  obtain ⟨_, _, he⟩ := run_inv legacy sha s st c h
+  obtain ⟨hg, _, he⟩ := run_inv legacy sha s st c h
   rw [he] at h ⊢
   simp only [set_ent_same]
   simp only at h
   rcases readRemote_spec legacy sha (s.now + st.dt) (s.ent st.url.id) st.flags
-      (net st.flags st.server) st.answer with ⟨h1, h2⟩ | ⟨_, c', _, h2, h3, h4⟩
-  · have hc := hi _ c (h2 c h)
+      (net st.flags st.server) st.answer (landing st.url st.server) with ⟨h1, h2⟩ | ⟨hw, c', hn, h2, h3, h4⟩
+  · have hc := usable_sum sha _ c (h2 c h)
     unfold stepRead
     rw [h1]
     exact ⟨hc, Or.inl hc⟩
@@ -130,13 +118,15 @@ theorem trustStep_of_inv (legacy : Bool) (sha : Content → Sum) (s : RState) (s
     rw [h2] at h
     cases h
     rw [h3]
-    exact ⟨rfl, h4⟩
+    refine ⟨rfl, ?_⟩
+    rcases h4 with h4 | ⟨hp, ha⟩
+    · exact Or.inl h4
+    · exact Or.inr ⟨hg, hw, ⟨c, hn, rfl⟩, hp, ha⟩
 
-theorem change_of_inv (legacy : Bool) (sha : Content → Sum) (s : RState) (st : Step) (v : Nat)
+theorem change_of_step (legacy : Bool) (sha : Content → Sum) (s : RState) (st : Step) (v : Nat)
     (h : ((invokeWith legacy sha s st).2.ent v).sum ≠ (s.ent v).sum) :
-    (v = st.url.id ∧ approves st.flags st.answer = true ∧
-      ∃ c, net st.flags st.server = .content c ∧ (invokeWith legacy sha s st).1 = .run c ∧
-        ((invokeWith legacy sha s st).2.ent v).sum = some (sha c)) ∨
+    (v = st.url.id ∧ ∃ c, ApprovedNow sha s st (sha c) ∧ net st.flags st.server = .content c ∧
+        (invokeWith legacy sha s st).1 = .run c ∧ ((invokeWith legacy sha s st).2.ent v).sum = some (sha c)) ∨
     (st.flags.clearCache = true ∧ (invokeWith legacy sha s st).1 = .cleared ∧
       ((invokeWith legacy sha s st).2.ent v).sum = none) := by
   cases hg : gate st with
@@ -144,23 +134,22 @@ theorem change_of_inv (legacy : Bool) (sha : Content → Sum) (s : RState) (st :
   | none =>
     have main : ∀ (he : invokeWith legacy sha s st =
         ((stepRead legacy sha s st).1, (s.tick st.dt).set st.url.id (stepRead legacy sha s st).2)),
-        (v = st.url.id ∧ approves st.flags st.answer = true ∧
-          ∃ c, net st.flags st.server = .content c ∧ (invokeWith legacy sha s st).1 = .run c ∧
-            ((invokeWith legacy sha s st).2.ent v).sum = some (sha c)) := by
+        (v = st.url.id ∧ ∃ c, ApprovedNow sha s st (sha c) ∧ net st.flags st.server = .content c ∧
+          (invokeWith legacy sha s st).1 = .run c ∧ ((invokeWith legacy sha s st).2.ent v).sum = some (sha c)) := by
       intro he
       rw [he] at h ⊢
       by_cases hv : v = st.url.id
       · subst hv
         simp only [set_ent_same] at h ⊢
         rcases readRemote_spec legacy sha (s.now + st.dt) (s.ent st.url.id) st.flags
-            (net st.flags st.server) st.answer with ⟨h1, _⟩ | ⟨_, c', hn, h2, h3, h4⟩
+            (net st.flags st.server) st.answer (landing st.url st.server) with ⟨h1, _⟩ | ⟨hw, c', hn, h2, h3, h4⟩
         · unfold stepRead at h; rw [h1] at h; exact absurd rfl h
         · unfold stepRead at h ⊢
           rw [h3] at h ⊢
-          refine ⟨trivial, ?_, c', hn, h2, rfl⟩
-          rcases h4 with h4 | h4
+          refine ⟨trivial, c', ?_, hn, h2, rfl⟩
+          rcases h4 with h4 | ⟨hp, ha⟩
           · simp only [written_sum] at h; exact absurd h4.symm h
-          · exact h4
+          · exact ⟨hg, hw, ⟨c', hn, rfl⟩, hp, ha⟩
       · rw [set_ent_other _ _ _ _ hv] at h; exact absurd rfl h
     cases hc : st.flags.clearCache with
     | false => exact Or.inl (main (invokeWith_open _ _ _ _ hg hc))
@@ -171,7 +160,7 @@ theorem change_of_inv (legacy : Bool) (sha : Content → Sum) (s : RState) (st :
 
 theorem unapproved_of (legacy : Bool) (sha : Content → Sum) (s : RState) (st : Step) (c : Content)
     (hg : gate st = none)
-    (hw : wantsFetch (s.now + st.dt) (s.ent st.url.id) st.flags = true)
+    (hw : wantsFetch sha (s.now + st.dt) (s.ent st.url.id) st.flags = true)
     (hn : net st.flags st.server = .content c) (hs : (s.ent st.url.id).sum ≠ some (sha c))
     (ha : approves st.flags st.answer = false) :
     (invokeWith legacy sha s st).1 = .error 104 ∧ ∀ v, (invokeWith legacy sha s st).2.ent v = s.ent v := by
@@ -190,42 +179,262 @@ theorem unapproved_of (legacy : Bool) (sha : Content → Sum) (s : RState) (st :
   · subst hv; simp
   · simp [set_ent_other _ _ _ _ hv]
 
-theorem trustStep (sha : Content → Sum) (s : RState) (st : Step) (hi : Inv sha s) : TrustStep sha s st where
-  ran_is_approved c h := (trustStep_of_inv false sha s st hi c h).1
-  ran_new_needs_approval c h := (trustStep_of_inv false sha s st hi c h).2
-  change_needs_approval v h := change_of_inv false sha s st v h
-  unapproved_refused c hg hw hn hs ha := unapproved_of false sha s st c hg hw hn hs ha
+/-- **every state** satisfies the trust clauses -/
+theorem trustStep (sha : Content → Sum) (s : RState) (st : Step) : TrustStep sha s st where
+  ran_is_approved c h := (trust_of_run false sha s st c h).1
+  ran_new_needs_approval c h := (trust_of_run false sha s st c h).2
+  change_needs_approval v h := change_of_step false sha s st v h
+  unapproved_refused c hg hw hn hs ha := by
+    obtain ⟨h1, h2⟩ := unapproved_of false sha s st c hg hw hn hs ha
+    unfold invoke
+    rw [h1]
+    exact ⟨rfl, rfl, h2⟩
 
-/-- **C20_trust**: after *every* history, whatever the next invocation is (any flags, any
-server state, any answer): content is handed on for execution only with the approved
-checksum, the approved checksum changes only under an accepted prompt or `--yes` in the same
-invocation, and unapproved new or changed content ends in 104 with nothing run and the cache
-untouched. -/
-theorem C20_trust (sha : Content → Sum) (h : List Step) (st : Step) : TrustStep sha (reach sha h) st :=
-  trustStep sha _ st (inv_reach sha h)
+/-- **C20_trust**: after *every* history — complete invocations, invocations killed between the
+cache writes, cached copies replaced, truncated or removed by something else, in any order —
+whatever the next invocation is (any flags, any server state, any answer): content is handed on
+for execution only with the stored checksum, which was stored before or for which a prompt was
+passed in this invocation; the stored checksum changes only under a passed prompt for the new
+one; unapproved new or changed content ends in 104 with nothing run and the cache untouched. -/
+theorem C20_trust (sha : Content → Sum) (h : List Ev) (st : Step) : TrustStep sha (reachEv sha h) st :=
+  trustStep sha _ st
 
-/-- `P` holds at every step along a history run from `s` -/
-def Always (sha : Content → Sum) (P : RState → Step → Prop) : RState → List Step → Prop
-  | _, [] => True
-  | s, st :: rest => P s st ∧ Always sha P (invoke sha s st).2 rest
+/-! ### The stored checksum is the anchor: only Task writes it, only after approval -/
 
-/-- the same, as a statement about every step *inside* an arbitrary history -/
-theorem C20_trust_always (sha : Content → Sum) (h : List Step) :
-    Always sha (TrustStep sha) RState.init h := by
-  suffices ∀ s, Inv sha s → Always sha (TrustStep sha) s h from this _ (inv_init sha)
+/-- the state after one event -/
+def after (sha : Content → Sum) (s : RState) : Ev → RState
+  | .step st => (invoke sha s st).2
+  | .pre p => applyPre sha s p
+
+def reachFrom (sha : Content → Sum) : RState → List Ev → RState
+  | s, [] => s
+  | s, ev :: rest => reachFrom sha (after sha s ev) rest
+
+theorem runEvWith_state (sha) (h : List Ev) : ∀ s, (runEvWith false sha s h).2 = reachFrom sha s h := by
   induction h with
-  | nil => intro _ _; trivial
-  | cons st rest ih =>
-    intro s hs
-    exact ⟨trustStep sha s st hs, ih _ (inv_invokeWith false sha s st hs)⟩
+  | nil => intro s; rfl
+  | cons ev rest ih =>
+    intro s
+    cases ev with
+    | step st => simp only [runEvWith, reachFrom, after, invoke]; exact ih _
+    | pre p => simp only [runEvWith, reachFrom, after]; exact ih _
 
-/-- the trust clauses hold for the fallback rule as it was written, too (F16 changes availability only) -/
-theorem C20_trust_legacy (sha : Content → Sum) (h : List Step) (s : RState)
-    (hs : s = (runWith true sha RState.init h).2) (st : Step) (c : Content)
+theorem reachEv_eq (sha) (h : List Ev) : reachEv sha h = reachFrom sha RState.init h :=
+  runEvWith_state sha h _
+
+theorem reachFrom_append (sha) (h1 h2 : List Ev) : ∀ s,
+    reachFrom sha s (h1 ++ h2) = reachFrom sha (reachFrom sha s h1) h2 := by
+  induction h1 with
+  | nil => intro s; rfl
+  | cons ev rest ih => intro s; simp only [List.cons_append, reachFrom]; exact ih _
+
+/-- a history of complete invocations, as before -/
+theorem reachEv_steps (sha) (h : List Step) : reachEv sha (h.map .step) = reach sha h := by
+  unfold reachEv reach run
+  suffices ∀ s, (runEvWith false sha s (h.map .step)).2 = (runWith false sha s h).2 from this _
+  induction h with
+  | nil => intro s; rfl
+  | cons st rest ih => intro s; simp only [List.map_cons, runEvWith, runWith]; exact ih _
+
+/-- the event `ev`, happening in state `s`, is an invocation for URL `u` — complete, or killed
+somewhere between its cache writes — in which a prompt for the checksum `x` was passed -/
+def ApprovesEv (sha : Content → Sum) (s : RState) (ev : Ev) (u : Nat) (x : Sum) : Prop :=
+  match ev with
+  | .step st => st.url.id = u ∧ ApprovedNow sha s st x
+  | .pre (.crash st _) => st.url.id = u ∧ ApprovedNow sha s st x
+  | .pre (.damage _ _) => False
+
+theorem partialWrite_sum (sha now e c r) (k : Nat) :
+    (partialWrite sha now e c r k).sum = e.sum ∨ (partialWrite sha now e c r k).sum = some (sha c) := by
+  match k with
+  | 0 => left; rfl
+  | 1 => right; rfl
+  | 2 => right; rfl
+  | 3 => right; rfl
+  | _ + 4 => right; rfl
+
+theorem writes_some (sha now e f n a c) (h : writes sha now e f n a = some c) :
+    wantsFetch sha now e f = true ∧ n = .content c ∧ (needsPrompt e (sha c) = false ∨ approves f a = true) := by
+  unfold writes at h
+  cases n with
+  | timedOut => cases h
+  | failed k => cases h
+  | content c' =>
+    simp only at h
+    split at h
+    · rename_i hc
+      cases h
+      simp only [Bool.and_eq_true, Bool.not_eq_true', Bool.and_eq_false_iff, Bool.not_eq_false'] at hc
+      exact ⟨hc.1, rfl, hc.2⟩
+    · cases h
+
+/-- whatever event changes the stored checksum of `v` to `some x` is an invocation (complete or
+killed) for `v` in which a prompt for `x` was passed -/
+theorem after_change (sha : Content → Sum) (s : RState) (ev : Ev) (v : Nat) (x : Sum)
+    (hne : ((after sha s ev).ent v).sum ≠ (s.ent v).sum) (hx : ((after sha s ev).ent v).sum = some x) :
+    ApprovesEv sha s ev v x := by
+  cases ev with
+  | step st =>
+    simp only [after] at hne hx
+    rcases change_of_step false sha s st v hne with ⟨hv, c, ha, _, _, hs⟩ | ⟨_, _, hn⟩
+    · have : x = sha c := by
+        unfold invoke at hx; rw [hs] at hx; exact (Option.some.inj hx).symm
+      subst this
+      exact ⟨hv.symm, ha⟩
+    · unfold invoke at hx; rw [hn] at hx; cases hx
+  | pre p =>
+    cases p with
+    | damage u c =>
+      exfalso
+      apply hne
+      simp only [after, applyPre]
+      by_cases hv : v = u
+      · subst hv; simp
+      · rw [set_ent_other _ _ _ _ hv]
+    | crash st k =>
+      simp only [after, applyPre] at hne hx
+      cases hg : gate st with
+      | some code => rw [hg] at hne; exact absurd rfl hne
+      | none =>
+        rw [hg] at hne hx
+        simp only [tick_now, tick_ent] at hne hx
+        cases hw : writes sha (s.now + st.dt) (s.ent st.url.id) st.flags (net st.flags st.server) st.answer with
+        | none => rw [hw] at hne; exact absurd rfl hne
+        | some c =>
+          rw [hw] at hne hx
+          simp only at hne hx
+          by_cases hv : v = st.url.id
+          · subst hv
+            rw [set_ent_same] at hne hx
+            obtain ⟨hwf, hn, hp⟩ := writes_some _ _ _ _ _ _ _ hw
+            rcases partialWrite_sum sha (s.now + st.dt) (s.ent st.url.id) c (landing st.url st.server) k with hs | hs
+            · exact absurd hs hne
+            · rw [hs] at hne hx
+              cases hx
+              refine ⟨rfl, hg, hwf, ⟨c, hn, rfl⟩, ?_, ?_⟩
+              · cases hp' : needsPrompt (s.ent st.url.id) (sha c) with
+                | true => rfl
+                | false => exact absurd ((needsPrompt_false_iff _ _).mp hp').symm hne
+              · rcases hp with hp | hp
+                · exact absurd ((needsPrompt_false_iff _ _).mp hp).symm hne
+                · exact hp
+          · rw [set_ent_other _ _ _ _ hv] at hne; exact absurd rfl hne
+
+theorem sum_approved_from (sha : Content → Sum) (h : List Ev) : ∀ (s : RState) (u : Nat) (x : Sum),
+    ((reachFrom sha s h).ent u).sum = some x →
+    (s.ent u).sum = some x ∨
+    ∃ h1 ev h2, h = h1 ++ ev :: h2 ∧ ApprovesEv sha (reachFrom sha s h1) ev u x := by
+  induction h with
+  | nil => intro s u x hx; exact Or.inl hx
+  | cons ev rest ih =>
+    intro s u x hx
+    simp only [reachFrom] at hx
+    rcases ih _ u x hx with h0 | ⟨h1, ev', h2, he, ha⟩
+    · by_cases hsame : ((after sha s ev).ent u).sum = (s.ent u).sum
+      · left; rw [← hsame]; exact h0
+      · right; exact ⟨[], ev, rest, rfl, after_change sha s ev u x hsame h0⟩
+    · right; exact ⟨ev :: h1, ev', h2, by rw [he]; rfl, ha⟩
+
+/-- **C20_sum_approved**: after any history with crashes and damage, a stored checksum was put there
+by an invocation of that history (possibly one that was killed right after `WriteChecksum`) in which
+a prompt for exactly that checksum was accepted, or passed by `--yes` -/
+theorem C20_sum_approved (sha : Content → Sum) (h : List Ev) (u : Nat) (x : Sum)
+    (hx : ((reachEv sha h).ent u).sum = some x) :
+    ∃ h1 ev h2, h = h1 ++ ev :: h2 ∧ ApprovesEv sha (reachEv sha h1) ev u x := by
+  rw [reachEv_eq] at hx
+  rcases sum_approved_from sha h _ u x hx with h0 | ⟨h1, ev, h2, he, ha⟩
+  · cases h0
+  · exact ⟨h1, ev, h2, he, by rw [reachEv_eq]; exact ha⟩
+
+/-- **C20_trust_history** (end to end): whatever an invocation hands on for execution, at the end of
+any history with crashes and damage, has a checksum for which — in this invocation or an earlier
+one of the history, complete or killed — a prompt was passed. -/
+theorem C20_trust_history (sha : Content → Sum) (h : List Ev) (st : Step) (c : Content)
+    (hr : (invoke sha (reachEv sha h) st).1 = .run c) :
+    ∃ h1 ev h2, h ++ [.step st] = h1 ++ ev :: h2 ∧ ApprovesEv sha (reachEv sha h1) ev st.url.id (sha c) := by
+  apply C20_sum_approved
+  rw [reachEv_eq, reachFrom_append, ← reachEv_eq]
+  exact (trustStep sha _ st).ran_is_approved c hr
+
+/-! ### A real failure between the writes: the file-size limit
+
+The harness also runs the binary under `ulimit -f 1`: the checksum, timestamp and location files are
+written, the write of the (longer) `.yaml` fails like on a full disk.  Such an invocation is, in the
+model, `Pre.crash st 3` followed by `Pre.damage` (`limitedPre`) — so everything proved about histories
+of `Ev` is proved about histories with size-limited invocations (`LEv`). -/
+
+theorem reachFrom_pres (sha) (ps : List Pre) (t : List Ev) : ∀ s,
+    reachFrom sha s (ps.map .pre ++ t) = reachFrom sha (ps.foldl (applyPre sha) s) t := by
+  induction ps with
+  | nil => intro s; rfl
+  | cons p ps ih => intro s; simp only [List.map_cons, List.cons_append, reachFrom, after, List.foldl_cons]; exact ih _
+
+/-- a history with size-limited invocations ends in the state the history of invocations, crashes and
+damage it amounts to (`expandL`) ends in -/
+theorem stateL_expand (sha) (h : List LEv) : ∀ s,
+    stateL false sha s h = reachFrom sha s (expandL false sha s h) := by
+  induction h with
+  | nil => intro s; rfl
+  | cons e rest ih =>
+    intro s
+    cases e with
+    | ev e =>
+      cases e with
+      | step st => simp only [stateL, expandL, reachFrom, after, invoke]; exact ih _
+      | pre p => simp only [stateL, expandL, reachFrom, after]; exact ih _
+    | limited st =>
+      simp only [stateL, expandL]
+      cases limitedPre sha s st with
+      | some ps => simp only; rw [reachFrom_pres]; exact ih _
+      | none => simp only [reachFrom, after, invoke]; exact ih _
+
+/-- hence `C20_trust` after every history with size-limited invocations -/
+theorem C20_trust_limited (sha : Content → Sum) (h : List LEv) (st : Step) :
+    TrustStep sha (stateL false sha RState.init h) st := trustStep sha _ st
+
+/-- … and every stored checksum of such a history was approved by an invocation of the history it
+amounts to (the one whose `.yaml` write failed included) -/
+theorem C20_sum_approved_limited (sha : Content → Sum) (h : List LEv) (u : Nat) (x : Sum)
+    (hx : ((stateL false sha RState.init h).ent u).sum = some x) :
+    ∃ h1 ev h2, expandL false sha RState.init h = h1 ++ ev :: h2 ∧ ApprovesEv sha (reachEv sha h1) ev u x := by
+  rw [stateL_expand, ← reachEv_eq] at hx
+  exact C20_sum_approved sha _ u x hx
+
+/-- the rule before fix R8-3 (cached bytes used without recomputing their checksum) hands on
+content whose checksum is not the stored one: after a crash between `WriteChecksum` and `Write`
+(`.checksum` of the approved new version 2, `.yaml` still version 1), `--offline` runs version 1 -/
+theorem C20_trust_norecheck_counterexample :
+    let torn : Entry := ⟨some 1, some 2, some 0, none⟩
+    let f : RFlags := { yes := false, download := false, offline := true, insecure := true, expiry := 0,
+                        patient := false, clearCache := false, experiment := true }
+    (readRemoteNoRecheck false id 0 torn f (.failed .refused) .noTerminal ⟨0, false⟩).1 = .run 1 ∧
+    torn.sum ≠ some (id 1) ∧
+    (readRemote false id 0 torn f (.failed .refused) .noTerminal ⟨0, false⟩).1 = .error 106 := by decide
+
+/-- `P` holds at every complete invocation along a history run from `s` -/
+def Always (sha : Content → Sum) (P : RState → Step → Prop) : RState → List Ev → Prop
+  | _, [] => True
+  | s, .step st :: rest => P s st ∧ Always sha P (invoke sha s st).2 rest
+  | s, .pre p :: rest => Always sha P (applyPre sha s p) rest
+
+/-- the same, as a statement about every invocation *inside* an arbitrary history -/
+theorem C20_trust_always (sha : Content → Sum) (h : List Ev) :
+    Always sha (TrustStep sha) RState.init h := by
+  suffices ∀ s, Always sha (TrustStep sha) s h from this _
+  induction h with
+  | nil => intro _; trivial
+  | cons ev rest ih =>
+    intro s
+    cases ev with
+    | step st => exact ⟨trustStep sha s st, ih _⟩
+    | pre p => exact ih _
+
+/-- the trust clauses hold for the F16 fallback rule as it was written, too (F16 changes availability only) -/
+theorem C20_trust_legacy (sha : Content → Sum) (s : RState) (st : Step) (c : Content)
     (hr : (invokeWith true sha s st).1 = .run c) :
     ((invokeWith true sha s st).2.ent st.url.id).sum = some (sha c) ∧
-    ((s.ent st.url.id).sum = some (sha c) ∨ approves st.flags st.answer = true) :=
-  trustStep_of_inv true sha s st (hs ▸ inv_runWith true sha h _ (inv_init sha)) c hr
+    ((s.ent st.url.id).sum = some (sha c) ∨ ApprovedNow sha s st (sha c)) :=
+  trust_of_run true sha s st c hr
 
 /-- an invocation for one URL never touches the cache files of another (unless it clears all) -/
 theorem C20_frame (sha : Content → Sum) (s : RState) (st : Step) (v : Nat) (hv : v ≠ st.url.id)
@@ -243,17 +452,91 @@ theorem C20_frame (sha : Content → Sum) (s : RState) (st : Step) (v : Nat) (hv
 
 /-! ## Plain http -/
 
-/-- **C20_http**: plain `http://` without `--insecure` is refused — with 105 (with the
-remote-Taskfiles experiment switched off: with the generic exit code 1, like every remote
-Taskfile) — whatever the cache holds, whatever the server would do, whatever is answered:
-the result does not depend on them and the cache is not touched (the check is made when the
-node is created, before any cache or network access).  (`flagsOk`: the command line passed
-`flags.Validate`.) -/
+/-- **C20_http** (the entrypoint): plain `http://` without `--insecure` is refused — with 105 (with
+the remote-Taskfiles experiment switched off: with the generic exit code 1, like every remote
+Taskfile) — whatever the cache holds, whatever the server would do, whatever is answered: the result
+does not depend on them and the cache is not touched (the check is made when the node is created,
+before any cache or network access).  (`flagsOk`: the command line passed `flags.Validate`.) -/
 theorem C20_http (sha : Content → Sum) (s : RState) (st : Step)
     (hf : flagsOk st.flags = true) (hh : st.url.https = false) (hi : st.flags.insecure = false) :
     invoke sha s st = (.error (if st.flags.experiment then 105 else 1), s.tick st.dt) := by
   apply invokeWith_gate
   cases hx : st.flags.experiment <;> simp [gate, hf, hh, hi, hx]
+
+theorem requested_secure (f : RFlags) (sv : Server) : ∀ (u : Url), (u.https = true ∨ f.insecure = true) →
+    ∀ v ∈ requested f u sv, v.https = true ∨ f.insecure = true := by
+  induction sv with
+  | serve c => intro u hu v hv; simp [requested] at hv; subst hv; exact hu
+  | fail k => intro u hu v hv; simp [requested] at hv; subst hv; exact hu
+  | slow c => intro u hu v hv; simp [requested] at hv; subst hv; exact hu
+  | redirect to next ih =>
+    intro u hu v hv
+    simp only [requested, List.mem_cons] at hv
+    rcases hv with hv | hv
+    · subst hv; exact hu
+    · by_cases hr : (!to.https && !f.insecure) = true
+      · simp [hr] at hv
+      · simp only [hr] at hv
+        refine ih to ?_ v hv
+        cases hh : to.https <;> cases hi : f.insecure <;> simp_all
+  | dir to file ih => intro u hu v hv; exact ih u hu v hv
+
+/-- **C20_http over EVERY hop**: in an invocation that gets past the gate, every URL a request is
+sent to — the node's own, the default names under it, and the target of every redirect that is
+followed, however long the chain of redirects — is https, unless `--insecure` was given. -/
+theorem C20_http_hops (st : Step) (hg : gate st = none) :
+    ∀ v ∈ requested st.flags st.url st.server, v.https = true ∨ st.flags.insecure = true :=
+  requested_secure st.flags st.server st.url ((gate_none_iff st).mp hg).2.1
+
+theorem net_refusedHop (f : RFlags) (sv : Server) (h : refusedHop f sv = true) :
+    net f sv = .failed .insecureHop := by
+  induction sv with
+  | serve c => cases h
+  | fail k => cases h
+  | slow c => cases h
+  | redirect to next ih =>
+    simp only [refusedHop, Bool.or_eq_true] at h
+    by_cases hr : (!to.https && !f.insecure) = true
+    · simp [net, hr]
+    · simp only [net, hr]
+      rcases h with h | h
+      · exact absurd h hr
+      · exact ih h
+  | dir to file ih => exact ih h
+
+/-- a redirect to plain http without `--insecure`, anywhere in the chain of redirects, gives no
+content: the fetch fails (105 when there is no cached copy to fall back to), nothing downloaded over
+the refused hop is ever looked at -/
+theorem C20_http_hop_refused (sha : Content → Sum) (s : RState) (st : Step)
+    (hr : refusedHop st.flags st.server = true) :
+    (∀ c, net st.flags st.server ≠ .content c) ∧
+    (∀ c, (invoke sha s st).1 = .run c → usable sha (s.ent st.url.id) = some c) ∧
+    (gate st = none → wantsFetch sha (s.now + st.dt) (s.ent st.url.id) st.flags = true →
+      usable sha (s.ent st.url.id) = none → (invoke sha s st).1 = .error 105) := by
+  have hn := net_refusedHop _ _ hr
+  refine ⟨?_, ?_, ?_⟩
+  · intro c hc; rw [hn] at hc; cases hc
+  · intro c h
+    obtain ⟨_, _, he⟩ := run_inv false sha s st c h
+    unfold invoke at h
+    rw [he] at h
+    simp only at h
+    rcases readRemote_spec false sha (s.now + st.dt) (s.ent st.url.id) st.flags
+        (net st.flags st.server) st.answer (landing st.url st.server) with ⟨_, h2⟩ | ⟨_, c', hn', _⟩
+    · exact h2 c h
+    · rw [hn] at hn'; cases hn'
+  · intro hg hw hu
+    have hread : stepRead false sha s st = (.error 105, s.ent st.url.id) := by
+      unfold stepRead
+      rw [readRemote_of_wantsFetch _ _ _ _ _ _ _ _ hw, hn, hu]
+      rfl
+    unfold invoke
+    cases hc : st.flags.clearCache with
+    | false => rw [invokeWith_open _ _ _ _ hg hc, hread]
+    | true =>
+      rcases invokeWith_clear false sha s st hg hc with ⟨c, h1, _⟩ | ⟨_, he⟩
+      · rw [hread] at h1; cases h1
+      · rw [he, hread]
 
 /-- without the experiment nothing remote is read at all -/
 theorem C20_experiment_off (sha : Content → Sum) (s : RState) (st : Step)
@@ -261,22 +544,22 @@ theorem C20_experiment_off (sha : Content → Sum) (s : RState) (st : Step)
   apply invokeWith_gate
   cases hf : flagsOk st.flags <;> simp [gate, hf, hx]
 
-/-- … conversely 105 is given for nothing else -/
+/-- … conversely 105 is given for nothing else: a plain-http entrypoint, or a refused redirect -/
 theorem C20_http_only (sha : Content → Sum) (s : RState) (st : Step)
-    (h : (invoke sha s st).1 = .error 105) : st.url.https = false ∧ st.flags.insecure = false := by
+    (h : (invoke sha s st).1 = .error 105) :
+    (st.url.https = false ∧ st.flags.insecure = false) ∨ net st.flags st.server = .failed .insecureHop := by
   unfold invoke at h
   cases hg : gate st with
   | some code =>
+    left
     rw [invokeWith_gate _ _ _ _ _ hg] at h
     unfold gate at hg
     cases hh : st.url.https <;> cases hi : st.flags.insecure <;>
       cases hf : flagsOk st.flags <;> cases hx : st.flags.experiment <;> simp_all
   | none =>
-    exfalso
-    have hne : (stepRead false sha s st).1 ≠ .error 105 := by
-      intro h'
-      have := readRemote_error_codes _ _ _ _ _ _ _ _ h'
-      omega
+    right
+    have hne : (stepRead false sha s st).1 = .error 105 → net st.flags st.server = .failed .insecureHop :=
+      fun h' => readRemote_105 _ _ _ _ _ _ _ _ h'
     cases hc : st.flags.clearCache with
     | false => rw [invokeWith_open _ _ _ _ hg hc] at h; exact hne h
     | true =>
@@ -286,53 +569,53 @@ theorem C20_http_only (sha : Content → Sum) (s : RState) (st : Step)
 
 /-! ## Offline and availability -/
 
-/-- the network gives no content: connection refused / reset, HTTP error, or stalled past `--timeout` -/
+/-- the network gives no content: connection refused / reset, HTTP error, refused redirect, or
+stalled past `--timeout` -/
 def Unavailable (st : Step) : Prop := ∀ c, net st.flags st.server ≠ .content c
 
-/-- **C20_offline**: with a cached copy `c` (approved, by the invariant), `--offline` runs
-exactly `c` — for every expiry, clock, server state and answer — and touches nothing. -/
-theorem C20_offline (sha : Content → Sum) (h : List Step) (st : Step) (c : Content)
+/-- **C20_offline**: in any state, with a cached copy `c` that has the stored checksum, `--offline`
+runs exactly `c` — for every expiry, clock, server state and answer — and touches nothing. -/
+theorem C20_offline (sha : Content → Sum) (s : RState) (st : Step) (c : Content)
     (hg : gate st = none) (ho : st.flags.offline = true) (hcl : st.flags.clearCache = false)
-    (hc : ((reach sha h).ent st.url.id).content = some c) :
-    (invoke sha (reach sha h) st).1 = .run c ∧
-    ((reach sha h).ent st.url.id).sum = some (sha c) ∧
-    ∀ v, (invoke sha (reach sha h) st).2.ent v = (reach sha h).ent v := by
+    (hc : usable sha (s.ent st.url.id) = some c) :
+    (invoke sha s st).1 = .run c ∧ (s.ent st.url.id).sum = some (sha c) ∧
+    ∀ v, (invoke sha s st).2.ent v = s.ent v := by
   have hok := ((gate_none_iff st).mp hg).1
   have hd : st.flags.download = false := by
     cases hd : st.flags.download with
     | false => rfl
     | true => simp [flagsOk, hd, ho] at hok
-  have hw : wantsFetch ((reach sha h).now + st.dt) ((reach sha h).ent st.url.id) st.flags = false := by
+  have hw : wantsFetch sha (s.now + st.dt) (s.ent st.url.id) st.flags = false := by
     simp [wantsFetch, hc, ho, hd]
-  have hr : stepRead false sha (reach sha h) st = (.run c, (reach sha h).ent st.url.id) := by
+  have hr : stepRead false sha s st = (.run c, s.ent st.url.id) := by
     unfold stepRead
-    rw [readRemote_of_not_wantsFetch _ _ _ _ _ _ _ hw, hc]
+    rw [readRemote_of_not_wantsFetch _ _ _ _ _ _ _ _ hw, hc]
   unfold invoke
   rw [invokeWith_open _ _ _ _ hg hcl, hr]
-  refine ⟨rfl, inv_reach sha h _ c hc, fun v => ?_⟩
+  refine ⟨rfl, usable_sum sha _ c hc, fun v => ?_⟩
   by_cases hv : v = st.url.id
   · subst hv; simp
   · simp [set_ent_other _ _ _ _ hv]
 
 /-- The availability half of C20 at full strength, as a statement about a fallback rule:
 whenever the network gives no content (refused **or** stalled **or** HTTP error) and a
-cached copy exists, that copy is what runs, and the cache is left as it is. -/
+cached copy with the stored checksum exists, that copy is what runs, and the cache is left as it is. -/
 def C20_available_full (legacy : Bool) : Prop :=
   ∀ (sha : Content → Sum) (s : RState) (st : Step) (c : Content),
     gate st = none → st.flags.clearCache = false → Unavailable st →
-    (s.ent st.url.id).content = some c →
+    usable sha (s.ent st.url.id) = some c →
     (invokeWith legacy sha s st).1 = .run c ∧ ∀ v, (invokeWith legacy sha s st).2.ent v = s.ent v
 
 private theorem stepRead_unavailable (legacy sha s st c) (hu : Unavailable st)
-    (hc : (s.ent st.url.id).content = some c)
+    (hc : usable sha (s.ent st.url.id) = some c)
     (hl : legacy = false ∨ net st.flags st.server = .timedOut ∨
-      wantsFetch (s.now + st.dt) (s.ent st.url.id) st.flags = false) :
+      wantsFetch sha (s.now + st.dt) (s.ent st.url.id) st.flags = false) :
     stepRead legacy sha s st = (.run c, s.ent st.url.id) := by
   unfold stepRead
-  cases hw : wantsFetch (s.now + st.dt) (s.ent st.url.id) st.flags with
-  | false => rw [readRemote_of_not_wantsFetch _ _ _ _ _ _ _ hw, hc]
+  cases hw : wantsFetch sha (s.now + st.dt) (s.ent st.url.id) st.flags with
+  | false => rw [readRemote_of_not_wantsFetch _ _ _ _ _ _ _ _ hw, hc]
   | true =>
-    rw [readRemote_of_wantsFetch _ _ _ _ _ _ _ hw, hc]
+    rw [readRemote_of_wantsFetch _ _ _ _ _ _ _ _ hw, hc]
     cases hn : net st.flags st.server with
     | content c' => exact absurd hn (hu c')
     | timedOut => simp [fetch]
@@ -356,14 +639,6 @@ private theorem available_of_stepRead (legacy sha s st c) (hg : gate st = none)
 theorem C20_available : C20_available_full false := by
   intro sha s st c hg hcl hu hc
   exact available_of_stepRead _ _ _ _ _ hg hcl (stepRead_unavailable false sha s st c hu hc (Or.inl rfl))
-
-/-- … and over histories: after any history, if a copy of the URL is cached it is an approved
-one and it runs when the network is unavailable. -/
-theorem C20_available_reach (sha : Content → Sum) (h : List Step) (st : Step) (c : Content)
-    (hg : gate st = none) (hcl : st.flags.clearCache = false) (hu : Unavailable st)
-    (hc : ((reach sha h).ent st.url.id).content = some c) :
-    (invoke sha (reach sha h) st).1 = .run c ∧ ((reach sha h).ent st.url.id).sum = some (sha c) :=
-  ⟨(C20_available sha _ st c hg hcl hu hc).1, inv_reach sha h _ c hc⟩
 
 /-! ### The rule as it was written (`ctx.Err() != nil && cacheFound`) -/
 
@@ -397,9 +672,9 @@ the decision table does not go to the network at all (unexpired cache without `-
 or `--offline`). -/
 theorem C20_available_legacy_partial (sha : Content → Sum) (s : RState) (st : Step) (c : Content)
     (hg : gate st = none) (hcl : st.flags.clearCache = false) (hu : Unavailable st)
-    (hc : (s.ent st.url.id).content = some c)
+    (hc : usable sha (s.ent st.url.id) = some c)
     (hside : net st.flags st.server = .timedOut ∨
-      wantsFetch (s.now + st.dt) (s.ent st.url.id) st.flags = false) :
+      wantsFetch sha (s.now + st.dt) (s.ent st.url.id) st.flags = false) :
     (invokeWith true sha s st).1 = .run c ∧ ∀ v, (invokeWith true sha s st).2.ent v = s.ent v :=
   available_of_stepRead _ _ _ _ _ hg hcl (stepRead_unavailable true sha s st c hu hc (Or.inr hside))
 
@@ -411,10 +686,10 @@ theorem runWith_append (legacy sha) (h1 h2 : List Step) : ∀ s,
   | nil => intro s; rfl
   | cons st rest ih => intro s; simp only [List.cons_append, runWith]; exact ih _
 
-/-- without `--clear-cache`, a cached copy never disappears -/
-theorem content_persists (legacy sha) (s : RState) (st : Step) (v : Nat)
-    (hcl : st.flags.clearCache = false) (h : ((s.ent v).content).isSome = true) :
-    (((invokeWith legacy sha s st).2.ent v).content).isSome = true := by
+/-- without `--clear-cache`, a complete invocation never takes a usable cached copy away -/
+theorem usable_persists (legacy sha) (s : RState) (st : Step) (v : Nat)
+    (hcl : st.flags.clearCache = false) (h : (usable sha (s.ent v)).isSome = true) :
+    (usable sha ((invokeWith legacy sha s st).2.ent v)).isSome = true := by
   cases hg : gate st with
   | some code => rw [invokeWith_gate _ _ _ _ _ hg]; exact h
   | none =>
@@ -423,71 +698,63 @@ theorem content_persists (legacy sha) (s : RState) (st : Step) (v : Nat)
     · subst hv
       simp only [set_ent_same]
       rcases readRemote_spec legacy sha (s.now + st.dt) (s.ent st.url.id) st.flags
-          (net st.flags st.server) st.answer with ⟨h1, _⟩ | ⟨_, c', _, _, h3, _⟩
+          (net st.flags st.server) st.answer (landing st.url st.server) with ⟨h1, _⟩ | ⟨_, c', _, _, h3, _⟩
       · unfold stepRead; rw [h1]; exact h
-      · unfold stepRead; rw [h3]; rfl
+      · unfold stepRead; rw [h3]; simp
     · simp only [set_ent_other _ _ _ _ hv, tick_ent]; exact h
 
-theorem content_persists_run (legacy sha) (h : List Step) : ∀ (s : RState) (v : Nat),
-    (∀ x ∈ h, x.flags.clearCache = false) → ((s.ent v).content).isSome = true →
-    ((((runWith legacy sha s h).2).ent v).content).isSome = true := by
+theorem usable_persists_run (legacy sha) (h : List Step) : ∀ (s : RState) (v : Nat),
+    (∀ x ∈ h, x.flags.clearCache = false) → (usable sha (s.ent v)).isSome = true →
+    (usable sha (((runWith legacy sha s h).2).ent v)).isSome = true := by
   induction h with
   | nil => intro s v _ hs; exact hs
   | cons st rest ih =>
     intro s v hx hs
     simp only [runWith]
     exact ih _ v (fun x hx' => hx x (List.mem_cons_of_mem _ hx'))
-      (content_persists legacy sha s st v (hx st List.mem_cons_self) hs)
+      (usable_persists legacy sha s st v (hx st List.mem_cons_self) hs)
 
-/-- **C20_stays_runnable**: once an invocation has handed on (downloaded-and-approved or
-cached) content of a URL, then after *any* further history without `--clear-cache`, an
-invocation for that URL made while the network is unavailable, or with `--offline`, runs a
-copy whose checksum is the approved one. -/
-theorem C20_stays_runnable (sha : Content → Sum) (h1 : List Step) (st : Step) (h2 : List Step)
+/-- **C20_stays_runnable**: once an invocation — in whatever state `s`, reached by whatever history
+with crashes and damage — has handed on (downloaded-and-approved or cached) content of a URL, then
+after *any* further history of complete invocations without `--clear-cache`, an invocation for that
+URL made while the network is unavailable, or with `--offline`, runs a copy whose checksum is the
+stored one. -/
+theorem C20_stays_runnable (sha : Content → Sum) (s : RState) (st : Step) (h2 : List Step)
     (c : Content) (st2 : Step)
-    (hrun : (invoke sha (reach sha h1) st).1 = .run c)
+    (hrun : (invoke sha s st).1 = .run c)
     (hnc : ∀ x ∈ h2, x.flags.clearCache = false)
     (hu : st2.url.id = st.url.id) (hg : gate st2 = none) (hcl : st2.flags.clearCache = false)
     (hdown : Unavailable st2 ∨ st2.flags.offline = true) :
-    ∃ c', (invoke sha (reach sha (h1 ++ st :: h2)) st2).1 = .run c' ∧
-      ((reach sha (h1 ++ st :: h2)).ent st2.url.id).sum = some (sha c') := by
-  -- after `st` the copy is in the cache
-  have hi := inv_reach sha h1
-  obtain ⟨_, hcl1, he⟩ := run_inv false sha (reach sha h1) st c hrun
-  have hafter : ((((invoke sha (reach sha h1) st).2).ent st.url.id).content).isSome = true := by
+    ∃ c', (invoke sha (run sha (invoke sha s st).2 h2).2 st2).1 = .run c' ∧
+      (((run sha (invoke sha s st).2 h2).2).ent st2.url.id).sum = some (sha c') := by
+  obtain ⟨_, hcl1, he⟩ := run_inv false sha s st c hrun
+  have hafter : (usable sha (((invoke sha s st).2).ent st.url.id)).isSome = true := by
     unfold invoke at hrun ⊢
     rw [he] at hrun ⊢
     simp only [set_ent_same]
-    rcases readRemote_spec false sha ((reach sha h1).now + st.dt) ((reach sha h1).ent st.url.id) st.flags
-        (net st.flags st.server) st.answer with ⟨h1', h2'⟩ | ⟨_, c', _, _, h3, _⟩
-    · unfold stepRead; rw [h1']; rw [h2' c hrun]; rfl
-    · unfold stepRead; rw [h3]; rfl
-  have hreach : reach sha (h1 ++ st :: h2) = (run sha (invoke sha (reach sha h1) st).2 h2).2 := by
-    unfold reach run
-    rw [runWith_append]
-    simp only [runWith]
-    rfl
-  have hsome := content_persists_run false sha h2 _ st.url.id hnc hafter
+    have := readRemote_run_usable false sha (s.now + st.dt) (s.ent st.url.id) st.flags
+      (net st.flags st.server) st.answer (landing st.url st.server) c hrun
+    unfold stepRead; rw [this]; rfl
+  have hsome := usable_persists_run false sha h2 _ st.url.id hnc hafter
   rw [← hu] at hsome
-  unfold run at hreach
-  rw [← hreach] at hsome
-  cases hc' : ((reach sha (h1 ++ st :: h2)).ent st2.url.id).content with
+  unfold run
+  cases hc' : usable sha (((runWith false sha (invoke sha s st).2 h2).2).ent st2.url.id) with
   | none => rw [hc'] at hsome; cases hsome
   | some c' =>
-    refine ⟨c', ?_, inv_reach sha _ _ c' hc'⟩
+    refine ⟨c', ?_, usable_sum sha _ c' hc'⟩
     rcases hdown with hd | hd
     · exact (C20_available sha _ st2 c' hg hcl hd hc').1
     · exact (C20_offline sha _ st2 c' hg hd hcl hc').1
 
 /-! ## The decision table, row by row (DESIGN App. D) -/
 
-/-- no copy and `--offline`: 106 -/
+/-- no usable copy and `--offline`: 106 -/
 theorem C20_offline_no_cache (sha : Content → Sum) (s : RState) (st : Step)
     (hg : gate st = none) (ho : st.flags.offline = true)
-    (hc : (s.ent st.url.id).content = none) : (invoke sha s st).1 = .error 106 := by
-  have hw : wantsFetch (s.now + st.dt) (s.ent st.url.id) st.flags = false := by simp [wantsFetch, hc, ho]
+    (hc : usable sha (s.ent st.url.id) = none) : (invoke sha s st).1 = .error 106 := by
+  have hw : wantsFetch sha (s.now + st.dt) (s.ent st.url.id) st.flags = false := by simp [wantsFetch, hc, ho]
   have hr : stepRead false sha s st = (.error 106, s.ent st.url.id) := by
-    unfold stepRead; rw [readRemote_of_not_wantsFetch _ _ _ _ _ _ _ hw, hc]
+    unfold stepRead; rw [readRemote_of_not_wantsFetch _ _ _ _ _ _ _ _ hw, hc]
   unfold invoke
   cases hcl : st.flags.clearCache with
   | false => rw [invokeWith_open _ _ _ _ hg hcl, hr]
@@ -496,17 +763,81 @@ theorem C20_offline_no_cache (sha : Content → Sum) (s : RState) (st : Step)
     · rw [hr] at h1; cases h1
     · rw [he, hr]
 
+/-- a cached copy that does not have the stored checksum — torn by a crash between the writes,
+truncated, replaced — is no cached copy: `--offline` ends with 106 and runs nothing, online it is
+downloaded again (and prompted for unless its checksum is the stored one) -/
+theorem C20_torn_copy_not_used (sha : Content → Sum) (s : RState) (st : Step) (c : Content)
+    (hc : (s.ent st.url.id).content = some c) (hs : (s.ent st.url.id).sum ≠ some (sha c)) :
+    usable sha (s.ent st.url.id) = none ∧
+    (gate st = none → st.flags.offline = true → (invoke sha s st).1 = .error 106) := by
+  have hu : usable sha (s.ent st.url.id) = none := by simp [usable, hc, hs]
+  exact ⟨hu, fun hg ho => C20_offline_no_cache sha s st hg ho hu⟩
+
+/-- stored timestamps are never ahead of the clock, crashes and damage included -/
+theorem tsOk_applyPre (sha) (s : RState) (p : Pre) (h : TsOk s) : TsOk (applyPre sha s p) := by
+  cases p with
+  | damage u c =>
+    intro v t ht
+    simp only [applyPre] at ht
+    by_cases hv : v = u
+    · subst hv; rw [set_ent_same] at ht; exact h _ t ht
+    · rw [set_ent_other _ _ _ _ hv] at ht; exact h v t ht
+  | crash st k =>
+    have htick : TsOk (s.tick st.dt) := by
+      intro v t ht
+      have := h v t ht
+      show t ≤ s.now + st.dt
+      omega
+    simp only [applyPre]
+    cases gate st with
+    | some code => exact htick
+    | none =>
+      simp only
+      cases writes sha (s.tick st.dt).now ((s.tick st.dt).ent st.url.id) st.flags (net st.flags st.server) st.answer with
+      | none => exact htick
+      | some c =>
+        intro v t ht
+        simp only at ht
+        by_cases hv : v = st.url.id
+        · subst hv
+          rw [set_ent_same] at ht
+          have hcases : (partialWrite sha (s.tick st.dt).now ((s.tick st.dt).ent st.url.id) c
+              (landing st.url st.server) k).ts = ((s.tick st.dt).ent st.url.id).ts ∨
+              (partialWrite sha (s.tick st.dt).now ((s.tick st.dt).ent st.url.id) c
+              (landing st.url st.server) k).ts = some (s.tick st.dt).now := by
+            match k with
+            | 0 => left; rfl
+            | 1 => left; rfl
+            | 2 => right; rfl
+            | 3 => right; rfl
+            | _ + 4 => right; rfl
+          rcases hcases with hc | hc
+          · rw [hc] at ht; exact htick _ t ht
+          · rw [hc] at ht; cases ht; exact Nat.le_refl _
+        · rw [set_ent_other _ _ _ _ hv] at ht; exact htick v t ht
+
+theorem tsOk_reachFrom (sha) (h : List Ev) : ∀ s, TsOk s → TsOk (reachFrom sha s h) := by
+  induction h with
+  | nil => intro s hs; exact hs
+  | cons ev rest ih =>
+    intro s hs
+    simp only [reachFrom]
+    apply ih
+    cases ev with
+    | step st => exact tsOk_invokeWith false sha s st hs
+    | pre p => exact tsOk_applyPre sha s p hs
+
 /-- the default expiry 0 makes no cache valid: after any history, every online invocation
 goes to the network (stored timestamps are never ahead of the clock) -/
-theorem C20_default_expiry_always_fetches (sha : Content → Sum) (h : List Step) (st : Step)
+theorem C20_default_expiry_always_fetches (sha : Content → Sum) (h : List Ev) (st : Step)
     (hx : st.flags.expiry = 0) (ho : st.flags.offline = false) :
-    wantsFetch ((reach sha h).now + st.dt) ((reach sha h).ent st.url.id) st.flags = true := by
-  have hts : TsOk (reach sha h) := tsOk_runWith false sha h _ tsOk_init
+    wantsFetch sha ((reachEv sha h).now + st.dt) ((reachEv sha h).ent st.url.id) st.flags = true := by
+  have hts : TsOk (reachEv sha h) := by rw [reachEv_eq]; exact tsOk_reachFrom sha h _ tsOk_init
   unfold wantsFetch cacheValid
-  cases hc : ((reach sha h).ent st.url.id).content with
+  cases hc : usable sha ((reachEv sha h).ent st.url.id) with
   | none => simp [ho]
   | some c =>
-    cases ht : ((reach sha h).ent st.url.id).ts with
+    cases ht : ((reachEv sha h).ent st.url.id).ts with
     | none => simp [ho]
     | some t =>
       have := hts _ t ht
@@ -515,11 +846,15 @@ theorem C20_default_expiry_always_fetches (sha : Content → Sum) (h : List Step
 
 /-! ## Same definitions as the driver executes -/
 
-theorem observe_results (legacy sha k) (h : List Step) : ∀ s,
-    (observe legacy sha k s h).map (·.1) = (runWith legacy sha s h).1 := by
+theorem observe_results (legacy sha k) (h : List Ev) : ∀ s,
+    (observe legacy sha k s h).map (·.1) = (runEvWith legacy sha s h).1 := by
   induction h with
   | nil => intro s; rfl
-  | cons st rest ih => intro s; simp only [observe, runWith, List.map_cons]; rw [ih]
+  | cons ev rest ih =>
+    intro s
+    cases ev with
+    | step st => simp only [observe, runEvWith, List.map_cons]; rw [ih]
+    | pre p => simp only [observe, runEvWith]; rw [ih]
 
 /-! ## Non-vacuity: concrete histories meeting the hypotheses -/
 
@@ -531,6 +866,7 @@ private def stOffline : Step := ⟨0, url0, { noFlags with offline := true }, .s
 private def stHttp : Step := ⟨0, url0, { yesFlags with insecure := false }, .serve 1, .accept⟩
 private def stHour : Step := ⟨0, url0, { noFlags with expiry := 1 }, .serve 2, .noTerminal⟩
 private def stAged : Step := ⟨2, url0, { noFlags with expiry := 1 }, .fail .notFound, .noTerminal⟩
+private def steps (h : List Step) : List Ev := h.map .step
 
 -- first use without approval: 104; approved download; changed content unapproved: 104 and the
 -- old copy stays; offline runs the old copy; accepted prompt switches; http without --insecure: 105
@@ -538,8 +874,14 @@ example : (run id RState.init [stChanged, stGet, stChanged, stDecline, stOffline
     = [.error 104, .run 1, .error 104, .error 104, .run 1, .run 2, .run 2, .error 105] := by decide
 -- hypotheses of `unapproved_refused` are met by `stChanged` after `stGet`
 example : gate stChanged = none ∧
-    wantsFetch ((reach id [stGet]).now + 0) ((reach id [stGet]).ent 0) stChanged.flags = true ∧
+    wantsFetch id ((reach id [stGet]).now + 0) ((reach id [stGet]).ent 0) stChanged.flags = true ∧
     ((reach id [stGet]).ent 0).sum ≠ some (id 2) ∧ approves stChanged.flags stChanged.answer = false := by decide
+-- `ApprovedNow` is met by an accepted prompt for the new checksum — and NOT by an `accept` typed when
+-- the offered content already has the stored checksum (no prompt is shown then)
+example : ApprovedNow id (reach id [stGet]) stAccept 2 :=
+  ⟨by decide, by decide, ⟨2, by decide, rfl⟩, by decide, by decide⟩
+example : ¬ ApprovedNow id (reach id [stGet, stAccept]) stAccept 2 := by
+  intro h; exact absurd h.2.2.2.1 (by decide)
 -- an unexpired cache is used without asking the (changed) server; once aged past the expiry the
 -- server is asked, and its 404 falls back to the copy
 example : (run id RState.init [stGet, stHour, stAged]).1 = [.run 1, .run 1, .run 1] := by decide
@@ -547,92 +889,92 @@ example : (runWith true id RState.init [stGet, stHour, stAged]).1 = [.run 1, .ru
 example : Unavailable stRefused ∧ Unavailable stStalled ∧ Unavailable stAged :=
   ⟨unavailable_of_failed _ _ .refused (by decide), unavailable_of_timedOut _ _ (by decide),
    unavailable_of_failed _ _ .notFound (by decide)⟩
-example : ((reach id [stGet]).ent 0).content = some 1 := by decide
+example : usable id ((reach id [stGet]).ent 0) = some 1 := by decide
 -- no cache: refused 103, stalled 108, offline 106
 example : (run id RState.init [stRefused, stStalled, stOffline]).1 = [.error 103, .error 108, .error 106] := by decide
+
+-- **torn states.**  Version 1 is approved and cached; an invocation that downloads and approves
+-- version 2 is killed after `WriteChecksum` (`crash … 1`): `.checksum` = 2, `.yaml` = 1.  `--offline`
+-- does not run the old copy (106); online the new version is downloaded without a prompt (its checksum
+-- is the approved one) and runs; a `.yaml` replaced by unapproved content 7 is not used either.
+private def stGet2 : Step := ⟨0, url0, yesFlags, .serve 2, .noTerminal⟩
+example : (runEvWith false id RState.init
+      [.step stGet, .pre (.crash stGet2 1), .step stOffline, .step stChanged, .step stOffline,
+       .pre (.damage 0 (some 7)), .step stOffline, .pre (.damage 0 none), .step stOffline]).1
+    = [.run 1, .error 106, .run 2, .run 2, .error 106, .error 106] := by decide
+example : ((reachEv id [.step stGet, .pre (.crash stGet2 1)]).ent 0).content = some 1 ∧
+    ((reachEv id [.step stGet, .pre (.crash stGet2 1)]).ent 0).sum = some 2 := by decide
+-- the killed invocation is the one that approved checksum 2 (`C20_sum_approved`)
+example : ApprovesEv id (reachEv id [.step stGet]) (.pre (.crash stGet2 1)) 0 2 :=
+  ⟨rfl, by decide, by decide, ⟨2, by decide, rfl⟩, by decide, by decide⟩
+
+-- a size-limited download of version 2 after version 1: exit 1, `.checksum` = 2, `.yaml` = garbage;
+-- then `--offline`: 106; online: version 2 without a prompt
+example : (observeL false id 1 RState.init
+      [.ev (.step stGet), .limited stGet2, .ev (.step stOffline), .ev (.step stChanged)]).map
+    (fun o => (o.1, o.2.map (fun e => (e.content, e.sum))))
+    = [(.run 1, [(some 1, some 1)]), (.error 1, [(some 0, some 2)]), (.error 106, [(some 0, some 2)]),
+       (.run 2, [(some 2, some 2)])] := by decide
+example : limitedPre id (reach id [stGet]) stGet2 = some [.crash stGet2 3, .damage 0 (some 0)] := by decide
+
+-- **redirects.**  URL 6 is https; its server redirects to the plain-http URL 13
+private def url6 : Url := ⟨6, true⟩
+private def secureFlags : RFlags := { yesFlags with insecure := false }
+private def stRedirPlain : Step := ⟨0, url6, secureFlags, .redirect ⟨13, false⟩ (.serve 1), .noTerminal⟩
+private def stRedirPlainInsecure : Step := ⟨0, url6, yesFlags, .redirect ⟨13, false⟩ (.serve 1), .noTerminal⟩
+private def stRedirTls : Step := ⟨0, url6, secureFlags, .redirect ⟨14, true⟩ (.serve 1), .noTerminal⟩
+private def stRedirTwice : Step :=
+  ⟨0, url6, secureFlags, .redirect ⟨14, true⟩ (.redirect ⟨13, false⟩ (.serve 1)), .noTerminal⟩
+-- https → http without --insecure: 105, nothing cached; with --insecure or https → https: runs;
+-- afterwards the refused redirect falls back to the approved copy
+example : (run id RState.init [stRedirPlain, stRedirTwice, stRedirTls, stRedirPlain, stRedirPlainInsecure]).1
+    = [.error 105, .error 105, .run 1, .run 1, .run 1] := by decide
+example : gate stRedirPlain = none ∧ refusedHop stRedirPlain.flags stRedirPlain.server = true ∧
+    refusedHop stRedirTwice.flags stRedirTwice.server = true ∧
+    refusedHop stRedirTls.flags stRedirTls.server = false := by decide
+example : requested stRedirTwice.flags stRedirTwice.url stRedirTwice.server = [⟨6, true⟩, ⟨14, true⟩] ∧
+    requested yesFlags url6 stRedirTwice.server = [⟨6, true⟩, ⟨14, true⟩, ⟨13, false⟩] := by decide
 
 /-! # Chains: one invocation reads a remote Taskfile *and* the remote Taskfile it includes
 
 `TaskModel.Remote.Chain`: `invokeChain sha inc s st` — node 1 as above, then, if the content
-node 1 yields includes a remote Taskfile (`inc c1 = some u2`), node 2 = `u2`, read by the same
-`readRemote` against its own cache entry, its own server behaviour and its own prompt answer,
-under the **one `--timeout` deadline of the invocation**: once node 1's fetch has timed out the
-deadline has passed (`spent1`), and node 2's fetch comes back `timedOut` at once, whatever its
-server would do (`net2`).  `inc` is a parameter like `sha`: nothing is assumed about it.
-All statements below are for arbitrary histories of such invocations (`reachChain`). -/
-
-theorem inv_after1 (legacy sha s st) (h : Inv sha s) : Inv sha (after1 legacy sha s st) := by
-  intro v
-  by_cases hv : v = st.base.url.id
-  · subst hv; rw [after1_ent_same]; exact readRemote_EInv _ _ _ _ _ _ _ (h _)
-  · rw [after1_ent_other _ _ _ _ _ hv]; exact h v
-
-theorem inv_after2 (legacy sha s st u2) (h : Inv sha s) : Inv sha (after2 legacy sha s st u2) := by
-  intro v
-  have h1 := inv_after1 legacy sha s st h
-  by_cases hv : v = u2.id
-  · subst hv; simp only [after2, set_ent_same]; exact readRemote_EInv _ _ _ _ _ _ _ (h1 _)
-  · simp only [after2, set_ent_other _ _ _ _ hv]; exact h1 v
-
-theorem inv_finish (sha) (f : RFlags) (r s) (h : Inv sha s) : Inv sha (finish f r s).2 := by
-  cases hc : f.clearCache with
-  | false => rw [finish_keep _ _ _ hc]; exact h
-  | true => rw [finish_clear _ _ _ hc]; intro v; exact EInv_empty sha
-
-theorem inv_invokeChainWith (legacy sha inc s st) (h : Inv sha s) :
-    Inv sha (invokeChainWith legacy sha inc s st).2 := by
-  cases shape legacy sha inc s st with
-  | gated code _ he => rw [he]; exact h
-  | err1 _ _ he => rw [he]; exact inv_after1 _ _ _ _ h
-  | single c1 _ _ _ he => rw [he]; exact inv_finish _ _ _ _ (inv_after1 _ _ _ _ h)
-  | cycle c1 u2 _ _ _ _ he => rw [he]; exact inv_after1 _ _ _ _ h
-  | gated2 c1 u2 code _ _ _ _ _ he => rw [he]; exact inv_after1 _ _ _ _ h
-  | err2 c1 u2 _ _ _ _ _ _ he => rw [he]; exact inv_after2 _ _ _ _ _ h
-  | both c1 u2 c2 _ _ _ _ _ _ he => rw [he]; exact inv_finish _ _ _ _ (inv_after2 _ _ _ _ _ h)
-
-theorem inv_runChainWith (legacy sha inc) (h : List CStep) :
-    ∀ s, Inv sha s → Inv sha (runChainWith legacy sha inc s h).2 := by
-  induction h with
-  | nil => intro s hs; exact hs
-  | cons st rest ih =>
-    intro s hs
-    simp only [runChainWith]
-    exact ih _ (inv_invokeChainWith legacy sha inc s st hs)
-
-/-- the invariant (a cached copy is one whose checksum is the approved one) holds after every
-history of chain invocations, for every entry — node 1's and node 2's alike -/
-theorem inv_reachChain (sha inc) (h : List CStep) : Inv sha (reachChain sha inc h) :=
-  inv_runChainWith false sha inc h _ (inv_init sha)
+node 1 yields includes a remote Taskfile (`inc c1 b = some u2`, `b` = the location stored with node
+1's cached copy: `base1`), node 2 = `u2`, read by the same `readRemote` against its own cache
+entry, its own server behaviour and its own prompt answer, under the **one `--timeout` deadline of
+the invocation**: once node 1's fetch has timed out the deadline has passed (`spent1`), and node 2's
+fetch comes back `timedOut` at once, whatever its server would do (`net2`).  `inc` is a parameter
+like `sha`: nothing is assumed about it.  All statements below are for arbitrary states (hence for
+arbitrary histories of chain invocations, crashes and damage: `reachChainEv`). -/
 
 /-! ## Per-node facts used for both nodes -/
 
 /-- what a node hands on has the stored checksum afterwards, and that checksum was stored
-before or is approved in this very read -/
-theorem node_trust (legacy sha now e f n a c) (hi : EInv sha e)
-    (h : (readRemote legacy sha now e f n a).1 = .run c) :
-    (readRemote legacy sha now e f n a).2.sum = some (sha c) ∧
-    (e.sum = some (sha c) ∨ approves f a = true) := by
-  rcases readRemote_spec legacy sha now e f n a with ⟨h1, h2⟩ | ⟨_, c', _, h2, h3, h4⟩
-  · have hc := hi c (h2 c h)
+before or a prompt for it is passed in this very read -/
+theorem node_trust (legacy sha now e f n a r c)
+    (h : (readRemote legacy sha now e f n a r).1 = .run c) :
+    (readRemote legacy sha now e f n a r).2.sum = some (sha c) ∧
+    (e.sum = some (sha c) ∨ (needsPrompt e (sha c) = true ∧ approves f a = true)) := by
+  rcases readRemote_spec legacy sha now e f n a r with ⟨h1, h2⟩ | ⟨_, c', _, h2, h3, h4⟩
+  · have hc := usable_sum sha _ c (h2 c h)
     rw [h1]; exact ⟨hc, Or.inl hc⟩
   · rw [h2] at h; cases h
     rw [h3]; exact ⟨rfl, h4⟩
 
-/-- a node's entry changes only by the three writes of downloaded content whose checksum was
-the stored one already or is approved in this very read -/
-theorem node_write (legacy sha now e f n a) (h : (readRemote legacy sha now e f n a).2 ≠ e) :
-    ∃ c, n = .content c ∧ (readRemote legacy sha now e f n a).1 = .run c ∧
-      (readRemote legacy sha now e f n a).2 = written sha now e c ∧
-      (e.sum = some (sha c) ∨ approves f a = true) := by
-  rcases readRemote_spec legacy sha now e f n a with ⟨h1, _⟩ | ⟨_, c, hn, h2, h3, h4⟩
+/-- a node's entry changes only by the four writes of downloaded content whose checksum was
+the stored one already or for which a prompt is passed in this very read -/
+theorem node_write (legacy sha now e f n a r) (h : (readRemote legacy sha now e f n a r).2 ≠ e) :
+    ∃ c, n = .content c ∧ (readRemote legacy sha now e f n a r).1 = .run c ∧
+      (readRemote legacy sha now e f n a r).2 = written sha now e c r ∧
+      (e.sum = some (sha c) ∨ (needsPrompt e (sha c) = true ∧ approves f a = true)) := by
+  rcases readRemote_spec legacy sha now e f n a r with ⟨h1, _⟩ | ⟨_, c, hn, h2, h3, h4⟩
   · exact absurd h1 h
   · exact ⟨c, hn, h2, h3, h4⟩
 
 /-- new or changed content without approval: 104, entry untouched -/
-theorem node_unapproved (legacy sha now e f n a c) (hw : wantsFetch now e f = true)
+theorem node_unapproved (legacy sha now e f n a r c) (hw : wantsFetch sha now e f = true)
     (hn : n = .content c) (hs : e.sum ≠ some (sha c)) (ha : approves f a = false) :
-    readRemote legacy sha now e f n a = (.error 104, e) := by
-  rw [readRemote_of_wantsFetch _ _ _ _ _ _ _ hw, hn]
+    readRemote legacy sha now e f n a r = (.error 104, e) := by
+  rw [readRemote_of_wantsFetch _ _ _ _ _ _ _ _ hw, hn]
   have hp : needsPrompt e (sha c) = true := by
     cases hp : needsPrompt e (sha c) with
     | true => rfl
@@ -640,42 +982,37 @@ theorem node_unapproved (legacy sha now e f n a c) (hw : wantsFetch now e f = tr
   simp [fetch, hp, ha]
 
 /-- **availability of one node** (repaired rule): whenever the fetch gives no content — refused,
-HTTP error, stalled past `--timeout`, *or the shared deadline had passed before the read began* —
-or no fetch is made at all, a cached copy is what the node yields, and its entry stays as it is -/
-theorem node_available (sha now e f n a c) (hu : ∀ c', n ≠ .content c') (hc : e.content = some c) :
-    readRemote false sha now e f n a = (.run c, e) := by
-  cases hw : wantsFetch now e f with
-  | false => rw [readRemote_of_not_wantsFetch _ _ _ _ _ _ _ hw, hc]
+HTTP error, refused redirect, stalled past `--timeout`, *or the shared deadline had passed before
+the read began* — or no fetch is made at all, a usable cached copy is what the node yields, and its
+entry stays as it is -/
+theorem node_available (sha now e f n a r c) (hu : ∀ c', n ≠ .content c') (hc : usable sha e = some c) :
+    readRemote false sha now e f n a r = (.run c, e) := by
+  cases hw : wantsFetch sha now e f with
+  | false => rw [readRemote_of_not_wantsFetch _ _ _ _ _ _ _ _ hw, hc]
   | true =>
-    rw [readRemote_of_wantsFetch _ _ _ _ _ _ _ hw, hc]
+    rw [readRemote_of_wantsFetch _ _ _ _ _ _ _ _ hw, hc]
     cases n with
     | content c' => exact absurd rfl (hu c')
     | timedOut => simp [fetch]
     | failed k => simp [fetch]
 
 /-- `--offline` (with the `--download` that `flags.Validate` then forbids off): the network
-outcome and the answer are not looked at -/
-theorem node_offline (legacy sha now e f n a) (ho : f.offline = true) (hd : f.download = false) :
-    readRemote legacy sha now e f n a = (match e.content with | some c => .run c | none => .error 106, e) := by
+outcome, the answer and the place a download would land at are not looked at -/
+theorem node_offline (legacy sha now e f n a r) (ho : f.offline = true) (hd : f.download = false) :
+    readRemote legacy sha now e f n a r = (match usable sha e with | some c => .run c | none => .error 106, e) := by
   apply readRemote_of_not_wantsFetch
   unfold wantsFetch
-  cases e.content <;> simp [ho, hd]
+  cases usable sha e <;> simp [ho, hd]
 
-theorem spent_offline (now e) (f : RFlags) (n) (ho : f.offline = true) (hd : f.download = false) :
-    spent now e f n = false := by
+theorem spent_offline (sha now e) (f : RFlags) (n) (ho : f.offline = true) (hd : f.download = false) :
+    spent sha now e f n = false := by
   unfold spent wantsFetch
-  cases n <;> cases e.content <;> simp [ho, hd]
+  cases n <;> cases usable sha e <;> simp [ho, hd]
 
 theorem liftErr_ne_run (r : RResult) (h : ∀ c, r ≠ .run c) (c1 c2) : liftErr r ≠ .run c1 c2 := by
   cases r with
   | run c => exact absurd rfl (h c)
   | cleared => intro h'; cases h'
-  | error code => intro h'; cases h'
-
-theorem liftErr_ne_cleared (r : RResult) (h : r ≠ .cleared) : liftErr r ≠ .cleared := by
-  cases r with
-  | run c => intro h'; cases h'
-  | cleared => exact absurd rfl h
   | error code => intro h'; cases h'
 
 theorem after2_ent_same (legacy sha s st u2) :
@@ -688,21 +1025,27 @@ theorem after2_ent_other (legacy sha s st u2 v) (hv : v ≠ u2.id) :
 
 /-! ## Cache writes only after trust — for both nodes -/
 
-/-- node 1's entry now holds the three writes of content its server gave, whose checksum was
-the stored one already or was approved (`--yes` / node 1's prompt accepted) in this invocation -/
+/-- a prompt for the checksum of `c`, offered for the entry `e`, is passed with the answer `a` -/
+def Passed (sha : Content → Sum) (e : Entry) (f : RFlags) (a : Answer) (c : Content) : Prop :=
+  needsPrompt e (sha c) = true ∧ approves f a = true
+
+/-- node 1's entry now holds the four writes of content its server gave, whose checksum was
+the stored one already or for which a prompt was passed (`--yes` / node 1's prompt accepted) in
+this invocation -/
 def Wrote1 (sha : Content → Sum) (s : RState) (st : CStep) (v : Nat) (e : Entry) : Prop :=
   v = st.base.url.id ∧ ∃ c, net st.base.flags st.base.server = .content c ∧
-    e = written sha (s.now + st.base.dt) (s.ent v) c ∧
-    ((s.ent v).sum = some (sha c) ∨ approves st.base.flags st.base.answer = true)
+    e = written sha (s.now + st.base.dt) (s.ent v) c (landing st.base.url st.base.server) ∧
+    ((s.ent v).sum = some (sha c) ∨ Passed sha (s.ent v) st.base.flags st.base.answer c)
 
 /-- the same for node 2: it was read (node 1 yielded content that includes it), the deadline had
-not passed, its server gave content, the checksum was known or node 2's own prompt was accepted -/
-def Wrote2 (legacy : Bool) (sha : Content → Sum) (inc : Content → Option Url) (s : RState) (st : CStep)
+not passed, its server gave content, the checksum was known or node 2's own prompt was passed -/
+def Wrote2 (legacy : Bool) (sha : Content → Sum) (inc : Content → Url → Option Url) (s : RState) (st : CStep)
     (v : Nat) (e : Entry) : Prop :=
-  ∃ c1 u2, (read1 legacy sha s st).1 = .run c1 ∧ inc c1 = some u2 ∧ v = u2.id ∧ v ≠ st.base.url.id ∧
-    spent1 s st = false ∧ ∃ c, net st.base.flags st.hop.server = .content c ∧
-    e = written sha (s.now + st.base.dt) (s.ent v) c ∧
-    ((s.ent v).sum = some (sha c) ∨ approves st.base.flags st.hop.answer = true)
+  ∃ c1 u2, (read1 legacy sha s st).1 = .run c1 ∧ inc c1 (base1 legacy sha s st) = some u2 ∧ v = u2.id ∧
+    v ≠ st.base.url.id ∧
+    spent1 sha s st = false ∧ ∃ c, net st.base.flags st.hop.server = .content c ∧
+    e = written sha (s.now + st.base.dt) (s.ent v) c (landing u2 st.hop.server) ∧
+    ((s.ent v).sum = some (sha c) ∨ Passed sha (s.ent v) st.base.flags st.hop.answer c)
 
 theorem net2_content (sp : Bool) (f sv c) (h : net2 sp f sv = .content c) : sp = false ∧ net f sv = .content c := by
   unfold net2 at h
@@ -715,12 +1058,12 @@ theorem after1_change (legacy sha s st v) (h : (after1 legacy sha s st).ent v 
   by_cases hv : v = st.base.url.id
   · subst hv
     rw [after1_ent_same] at h ⊢
-    obtain ⟨c, hn, _, hw, ha⟩ := node_write _ _ _ _ _ _ _ h
+    obtain ⟨c, hn, _, hw, ha⟩ := node_write _ _ _ _ _ _ _ _ h
     exact ⟨rfl, c, hn, hw, ha⟩
   · exact absurd (after1_ent_other _ _ _ _ _ hv) h
 
 theorem after2_change (legacy sha inc s st c1 u2 v) (h1 : (read1 legacy sha s st).1 = .run c1)
-    (hi : inc c1 = some u2) (hu : u2.id ≠ st.base.url.id)
+    (hi : inc c1 (base1 legacy sha s st) = some u2) (hu : u2.id ≠ st.base.url.id)
     (h : (after2 legacy sha s st u2).ent v ≠ s.ent v) :
     Wrote1 sha s st v ((after2 legacy sha s st u2).ent v) ∨
     Wrote2 legacy sha inc s st v ((after2 legacy sha s st u2).ent v) := by
@@ -728,7 +1071,7 @@ theorem after2_change (legacy sha inc s st c1 u2 v) (h1 : (read1 legacy sha s st
   · subst hv
     right
     rw [after2_ent_same, read2_eq _ _ _ _ _ hu] at h ⊢
-    obtain ⟨c, hn, _, hw, ha⟩ := node_write _ _ _ _ _ _ _ h
+    obtain ⟨c, hn, _, hw, ha⟩ := node_write _ _ _ _ _ _ _ _ h
     obtain ⟨hsp, hn'⟩ := net2_content _ _ _ _ hn
     exact ⟨c1, u2, h1, hi, rfl, hu, hsp, c, hn', hw, ha⟩
   · left
@@ -737,8 +1080,9 @@ theorem after2_change (legacy sha inc s st c1 u2 v) (h1 : (read1 legacy sha s st
 
 /-- **Cache written only after trust, for every node of the chain**: whatever entry differs after
 an invocation was either dropped by a successful `--clear-cache`, or is node 1's or node 2's and
-holds exactly the three writes of downloaded content whose checksum was already the approved
-one or was approved — by `--yes` or by *that node's* accepted prompt — in this invocation. -/
+holds exactly the four writes of downloaded content whose checksum was already the stored
+one or for which a prompt was passed — by `--yes` or by *that node's* accepted prompt — in this
+invocation. -/
 theorem chain_write_spec (legacy sha inc s st v)
     (h : (invokeChainWith legacy sha inc s st).2.ent v ≠ s.ent v) :
     (st.base.flags.clearCache = true ∧ (invokeChainWith legacy sha inc s st).1 = .cleared ∧
@@ -768,68 +1112,73 @@ theorem chain_write_spec (legacy sha inc s st v)
 /-! ## Trust -/
 
 /-- What C20 demands of one chain invocation `st` made in state `s`. -/
-structure TrustChain (sha : Content → Sum) (inc : Content → Option Url) (s : RState) (st : CStep) : Prop where
-  /-- node 1's content handed on for execution has the checksum that is the approved one for its
-  URL at that moment, approved before or in this very invocation (`--yes` / node 1's prompt) -/
+structure TrustChain (sha : Content → Sum) (inc : Content → Url → Option Url) (s : RState) (st : CStep) : Prop where
+  /-- node 1's content handed on for execution has the checksum that is the stored one for its URL
+  at that moment, stored before or approved in this very invocation by a prompt for exactly it
+  (`--yes` / node 1's prompt accepted) -/
   ran1_is_approved : ∀ c1 c2, (invokeChain sha inc s st).1 = .run c1 c2 →
     ((invokeChain sha inc s st).2.ent st.base.url.id).sum = some (sha c1) ∧
-    ((s.ent st.base.url.id).sum = some (sha c1) ∨ approves st.base.flags st.base.answer = true)
-  /-- node 2's content handed on for execution is that of the URL node 1's content includes, has
-  the checksum that is the approved one for *that* URL, approved before or in this very invocation
-  (`--yes` / node 2's own prompt) -/
+    ((s.ent st.base.url.id).sum = some (sha c1) ∨
+      Passed sha (s.ent st.base.url.id) st.base.flags st.base.answer c1)
+  /-- node 2's content handed on for execution is that of the URL node 1's content includes (seen from
+  the location stored with node 1's copy), has the checksum that is the stored one for *that* URL,
+  stored before or approved in this very invocation by node 2's own prompt (or `--yes`) -/
   ran2_is_approved : ∀ c1 c2, (invokeChain sha inc s st).1 = .run c1 (some c2) →
-    ∃ u2, inc c1 = some u2 ∧ u2.id ≠ st.base.url.id ∧
+    ∃ u2, inc c1 (base1 false sha s st) = some u2 ∧ u2.id ≠ st.base.url.id ∧
       ((invokeChain sha inc s st).2.ent u2.id).sum = some (sha c2) ∧
-      ((s.ent u2.id).sum = some (sha c2) ∨ approves st.base.flags st.hop.answer = true)
+      ((s.ent u2.id).sum = some (sha c2) ∨ Passed sha (s.ent u2.id) st.base.flags st.hop.answer c2)
   /-- node 1's content runs alone only if it includes nothing remote -/
-  ran_alone : ∀ c1, (invokeChain sha inc s st).1 = .run c1 none → inc c1 = none
+  ran_alone : ∀ c1, (invokeChain sha inc s st).1 = .run c1 none → inc c1 (base1 false sha s st) = none
   /-- cache files are written only after trust, for both nodes (`chain_write_spec`) -/
   written_after_trust : ∀ v, (invokeChain sha inc s st).2.ent v ≠ s.ent v →
     (st.base.flags.clearCache = true ∧ (invokeChain sha inc s st).1 = .cleared ∧
       (invokeChain sha inc s st).2.ent v = Entry.empty) ∨
     Wrote1 sha s st v ((invokeChain sha inc s st).2.ent v) ∨
     Wrote2 false sha inc s st v ((invokeChain sha inc s st).2.ent v)
-  /-- the approved checksum of any URL changes only to the checksum of content downloaded in this
-  invocation for that URL as node 1 or node 2, under `--yes` or that node's accepted prompt — or
+  /-- the stored checksum of any URL changes only to the checksum of content downloaded in this
+  invocation for that URL as node 1 or node 2, under a passed prompt of that node — or
   the whole cache is dropped by `--clear-cache` -/
   change_needs_approval : ∀ v, ((invokeChain sha inc s st).2.ent v).sum ≠ (s.ent v).sum →
     (st.base.flags.clearCache = true ∧ (invokeChain sha inc s st).1 = .cleared) ∨
-    (v = st.base.url.id ∧ approves st.base.flags st.base.answer = true ∧
-      ∃ c, net st.base.flags st.base.server = .content c ∧
+    (v = st.base.url.id ∧
+      ∃ c, net st.base.flags st.base.server = .content c ∧ Passed sha (s.ent v) st.base.flags st.base.answer c ∧
         ((invokeChain sha inc s st).2.ent v).sum = some (sha c)) ∨
-    (v ≠ st.base.url.id ∧ approves st.base.flags st.hop.answer = true ∧
-      ∃ c1 u2 c, (read1 false sha s st).1 = .run c1 ∧ inc c1 = some u2 ∧ v = u2.id ∧
-        net st.base.flags st.hop.server = .content c ∧
+    (v ≠ st.base.url.id ∧
+      ∃ c1 u2 c, (read1 false sha s st).1 = .run c1 ∧ inc c1 (base1 false sha s st) = some u2 ∧ v = u2.id ∧
+        net st.base.flags st.hop.server = .content c ∧ Passed sha (s.ent v) st.base.flags st.hop.answer c ∧
         ((invokeChain sha inc s st).2.ent v).sum = some (sha c))
-  /-- node 1 offers new or changed content without approval: 104, node 2 is not read, no cache
-  file of any URL touched -/
+  /-- node 1 offers new or changed content without approval: 104, nothing executed, node 2 is not
+  read, no cache file of any URL touched -/
   unapproved1_refused : ∀ c, gate st.base = none →
-    wantsFetch (s.now + st.base.dt) (s.ent st.base.url.id) st.base.flags = true →
+    wantsFetch sha (s.now + st.base.dt) (s.ent st.base.url.id) st.base.flags = true →
     net st.base.flags st.base.server = .content c → (s.ent st.base.url.id).sum ≠ some (sha c) →
     approves st.base.flags st.base.answer = false →
-    (invokeChain sha inc s st).1 = .error 104 ∧ ∀ v, (invokeChain sha inc s st).2.ent v = s.ent v
-  /-- node 2 offers new or changed content without approval: 104, **nothing runs — not node 1's
+    (invokeChain sha inc s st).1.exit = 104 ∧ (invokeChain sha inc s st).1.trace = [] ∧
+    ∀ v, (invokeChain sha inc s st).2.ent v = s.ent v
+  /-- node 2 offers new or changed content without approval: 104, **nothing executed — not node 1's
   content either** — and no cache file other than node 1's is touched -/
   unapproved2_refused : ∀ c1 u2 c, gate st.base = none → (read1 false sha s st).1 = .run c1 →
-    inc c1 = some u2 → u2.id ≠ st.base.url.id → gate2 st.base.flags u2 = none →
-    wantsFetch (s.now + st.base.dt) (s.ent u2.id) st.base.flags = true →
-    net2 (spent1 s st) st.base.flags st.hop.server = .content c → (s.ent u2.id).sum ≠ some (sha c) →
+    inc c1 (base1 false sha s st) = some u2 → u2.id ≠ st.base.url.id → gate2 st.base.flags u2 = none →
+    wantsFetch sha (s.now + st.base.dt) (s.ent u2.id) st.base.flags = true →
+    net2 (spent1 sha s st) st.base.flags st.hop.server = .content c → (s.ent u2.id).sum ≠ some (sha c) →
     approves st.base.flags st.hop.answer = false →
-    (invokeChain sha inc s st).1 = .error 104 ∧
+    (invokeChain sha inc s st).1.exit = 104 ∧ (invokeChain sha inc s st).1.trace = [] ∧
       ∀ v, v ≠ st.base.url.id → (invokeChain sha inc s st).2.ent v = s.ent v
 
-theorem chain_ran (legacy sha inc s st) (hi : Inv sha s) (c1 : Content) (c2 : Option Content)
+theorem chain_ran (legacy sha inc s st) (c1 : Content) (c2 : Option Content)
     (h : (invokeChainWith legacy sha inc s st).1 = .run c1 c2) :
     (((invokeChainWith legacy sha inc s st).2.ent st.base.url.id).sum = some (sha c1) ∧
-      ((s.ent st.base.url.id).sum = some (sha c1) ∨ approves st.base.flags st.base.answer = true)) ∧
-    (c2 = none → inc c1 = none) ∧
-    (∀ c2', c2 = some c2' → ∃ u2, inc c1 = some u2 ∧ u2.id ≠ st.base.url.id ∧
+      ((s.ent st.base.url.id).sum = some (sha c1) ∨
+        Passed sha (s.ent st.base.url.id) st.base.flags st.base.answer c1)) ∧
+    (c2 = none → inc c1 (base1 legacy sha s st) = none) ∧
+    (∀ c2', c2 = some c2' → ∃ u2, inc c1 (base1 legacy sha s st) = some u2 ∧ u2.id ≠ st.base.url.id ∧
       ((invokeChainWith legacy sha inc s st).2.ent u2.id).sum = some (sha c2') ∧
-      ((s.ent u2.id).sum = some (sha c2') ∨ approves st.base.flags st.hop.answer = true)) := by
+      ((s.ent u2.id).sum = some (sha c2') ∨ Passed sha (s.ent u2.id) st.base.flags st.hop.answer c2')) := by
   have t1 : ∀ c, (read1 legacy sha s st).1 = .run c →
       (read1 legacy sha s st).2.sum = some (sha c) ∧
-      ((s.ent st.base.url.id).sum = some (sha c) ∨ approves st.base.flags st.base.answer = true) :=
-    fun c hc => node_trust _ _ _ _ _ _ _ c (hi _) hc
+      ((s.ent st.base.url.id).sum = some (sha c) ∨
+        Passed sha (s.ent st.base.url.id) st.base.flags st.base.answer c) :=
+    fun c hc => node_trust _ _ _ _ _ _ _ _ c hc
   cases shape legacy sha inc s st with
   | gated code _ he => rw [he] at h; cases h
   | err1 _ hn he => rw [he] at h; exact absurd h (liftErr_ne_run _ hn _ _)
@@ -861,17 +1210,17 @@ theorem chain_ran (legacy sha inc s st) (hi : Inv sha s) (c1 : Content) (c2 : Op
         rw [after2_ent_same]
         have h2' := h2
         rw [read2_eq _ _ _ _ _ hu] at h2' ⊢
-        exact node_trust _ _ _ _ _ _ _ _ (hi _) h2'
+        exact node_trust _ _ _ _ _ _ _ _ _ h2'
 
 theorem chain_change (legacy sha inc s st v)
     (h : ((invokeChainWith legacy sha inc s st).2.ent v).sum ≠ (s.ent v).sum) :
     (st.base.flags.clearCache = true ∧ (invokeChainWith legacy sha inc s st).1 = .cleared) ∨
-    (v = st.base.url.id ∧ approves st.base.flags st.base.answer = true ∧
-      ∃ c, net st.base.flags st.base.server = .content c ∧
+    (v = st.base.url.id ∧
+      ∃ c, net st.base.flags st.base.server = .content c ∧ Passed sha (s.ent v) st.base.flags st.base.answer c ∧
         ((invokeChainWith legacy sha inc s st).2.ent v).sum = some (sha c)) ∨
-    (v ≠ st.base.url.id ∧ approves st.base.flags st.hop.answer = true ∧
-      ∃ c1 u2 c, (read1 legacy sha s st).1 = .run c1 ∧ inc c1 = some u2 ∧ v = u2.id ∧
-        net st.base.flags st.hop.server = .content c ∧
+    (v ≠ st.base.url.id ∧
+      ∃ c1 u2 c, (read1 legacy sha s st).1 = .run c1 ∧ inc c1 (base1 legacy sha s st) = some u2 ∧ v = u2.id ∧
+        net st.base.flags st.hop.server = .content c ∧ Passed sha (s.ent v) st.base.flags st.hop.answer c ∧
         ((invokeChainWith legacy sha inc s st).2.ent v).sum = some (sha c)) := by
   have hne : (invokeChainWith legacy sha inc s st).2.ent v ≠ s.ent v := by
     intro he; rw [he] at h; exact h rfl
@@ -880,25 +1229,25 @@ theorem chain_change (legacy sha inc s st v)
   · exact Or.inl ⟨hc, hr⟩
   · right; left
     rw [hw] at h ⊢
-    refine ⟨hv, ?_, c, hn, rfl⟩
+    refine ⟨hv, c, hn, ?_, rfl⟩
     rcases ha with ha | ha
     · simp only [written_sum] at h; exact absurd ha.symm h
     · exact ha
   · right; right
     rw [hw] at h ⊢
-    refine ⟨hvn, ?_, c1, u2, c, h1, hi, hv, hn, rfl⟩
+    refine ⟨hvn, c1, u2, c, h1, hi, hv, hn, ?_, rfl⟩
     rcases ha with ha | ha
     · simp only [written_sum] at h; exact absurd ha.symm h
     · exact ha
 
 theorem chain_unapproved1 (legacy sha inc s st c) (hg : gate st.base = none)
-    (hw : wantsFetch (s.now + st.base.dt) (s.ent st.base.url.id) st.base.flags = true)
+    (hw : wantsFetch sha (s.now + st.base.dt) (s.ent st.base.url.id) st.base.flags = true)
     (hn : net st.base.flags st.base.server = .content c) (hs : (s.ent st.base.url.id).sum ≠ some (sha c))
     (ha : approves st.base.flags st.base.answer = false) :
     (invokeChainWith legacy sha inc s st).1 = .error 104 ∧
       ∀ v, (invokeChainWith legacy sha inc s st).2.ent v = s.ent v := by
   have hr : read1 legacy sha s st = (.error 104, s.ent st.base.url.id) :=
-    node_unapproved _ _ _ _ _ _ _ c hw hn hs ha
+    node_unapproved _ _ _ _ _ _ _ _ c hw hn hs ha
   have h1 : ∀ c', (read1 legacy sha s st).1 ≠ .run c' := by intro c' hc; rw [hr] at hc; cases hc
   rw [invokeChainWith_err1 _ _ _ _ _ hg h1, hr]
   refine ⟨rfl, fun v => ?_⟩
@@ -907,15 +1256,16 @@ theorem chain_unapproved1 (legacy sha inc s st c) (hg : gate st.base = none)
   · exact after1_ent_other _ _ _ _ _ hv
 
 theorem chain_unapproved2 (legacy sha inc s st c1 u2 c) (hg : gate st.base = none)
-    (h1 : (read1 legacy sha s st).1 = .run c1) (hi : inc c1 = some u2) (hu : u2.id ≠ st.base.url.id)
+    (h1 : (read1 legacy sha s st).1 = .run c1) (hi : inc c1 (base1 legacy sha s st) = some u2)
+    (hu : u2.id ≠ st.base.url.id)
     (hg2 : gate2 st.base.flags u2 = none)
-    (hw : wantsFetch (s.now + st.base.dt) (s.ent u2.id) st.base.flags = true)
-    (hn : net2 (spent1 s st) st.base.flags st.hop.server = .content c)
+    (hw : wantsFetch sha (s.now + st.base.dt) (s.ent u2.id) st.base.flags = true)
+    (hn : net2 (spent1 sha s st) st.base.flags st.hop.server = .content c)
     (hs : (s.ent u2.id).sum ≠ some (sha c)) (ha : approves st.base.flags st.hop.answer = false) :
     (invokeChainWith legacy sha inc s st).1 = .error 104 ∧
       ∀ v, v ≠ st.base.url.id → (invokeChainWith legacy sha inc s st).2.ent v = s.ent v := by
   have hr : read2 legacy sha s st u2 = (.error 104, s.ent u2.id) := by
-    rw [read2_eq _ _ _ _ _ hu]; exact node_unapproved _ _ _ _ _ _ _ c hw hn hs ha
+    rw [read2_eq _ _ _ _ _ hu]; exact node_unapproved _ _ _ _ _ _ _ _ c hw hn hs ha
   have h2 : ∀ c', (read2 legacy sha s st u2).1 ≠ .run c' := by intro c' hc; rw [hr] at hc; cases hc
   rw [invokeChainWith_err2 _ _ _ _ _ _ _ hg h1 hi hu hg2 h2, hr]
   refine ⟨rfl, fun v hv1 => ?_⟩
@@ -923,43 +1273,50 @@ theorem chain_unapproved2 (legacy sha inc s st c1 u2 c) (hg : gate st.base = non
   · subst hv; rw [after2_ent_same, hr]
   · rw [after2_ent_other _ _ _ _ _ _ hv]; exact after1_ent_other _ _ _ _ _ hv1
 
-theorem trustChain (sha inc s st) (hi : Inv sha s) : TrustChain sha inc s st where
-  ran1_is_approved c1 c2 h := (chain_ran false sha inc s st hi c1 c2 h).1
-  ran2_is_approved c1 c2 h := (chain_ran false sha inc s st hi c1 (some c2) h).2.2 c2 rfl
-  ran_alone c1 h := (chain_ran false sha inc s st hi c1 none h).2.1 rfl
+/-- **every state** satisfies the chain trust clauses -/
+theorem trustChain (sha inc s st) : TrustChain sha inc s st where
+  ran1_is_approved c1 c2 h := (chain_ran false sha inc s st c1 c2 h).1
+  ran2_is_approved c1 c2 h := (chain_ran false sha inc s st c1 (some c2) h).2.2 c2 rfl
+  ran_alone c1 h := (chain_ran false sha inc s st c1 none h).2.1 rfl
   written_after_trust v h := chain_write_spec false sha inc s st v h
   change_needs_approval v h := chain_change false sha inc s st v h
-  unapproved1_refused c hg hw hn hs ha := chain_unapproved1 false sha inc s st c hg hw hn hs ha
-  unapproved2_refused c1 u2 c hg h1 hinc hu hg2 hw hn hs ha :=
-    chain_unapproved2 false sha inc s st c1 u2 c hg h1 hinc hu hg2 hw hn hs ha
+  unapproved1_refused c hg hw hn hs ha := by
+    obtain ⟨h1, h2⟩ := chain_unapproved1 false sha inc s st c hg hw hn hs ha
+    unfold invokeChain; rw [h1]; exact ⟨rfl, rfl, h2⟩
+  unapproved2_refused c1 u2 c hg h1 hinc hu hg2 hw hn hs ha := by
+    obtain ⟨h1', h2⟩ := chain_unapproved2 false sha inc s st c1 u2 c hg h1 hinc hu hg2 hw hn hs ha
+    unfold invokeChain; rw [h1']; exact ⟨rfl, rfl, h2⟩
 
-/-- **C20_chain_trust**: after *every* history of chain invocations, whatever the next one is (any
-flags, any behaviour of either node's server, any answers, any `inc`, any `sha`): content of
-either node is handed on for execution only with the checksum approved for *its* URL; cache
-files and approved checksums change only after trust, node by node; unapproved new or changed
-content of either node ends in 104 with nothing run. -/
-theorem C20_chain_trust (sha : Content → Sum) (inc : Content → Option Url) (h : List CStep) (st : CStep) :
-    TrustChain sha inc (reachChain sha inc h) st :=
-  trustChain sha inc _ st (inv_reachChain sha inc h)
+/-- **C20_chain_trust**: after *every* history of chain invocations, crashes and damage, whatever
+the next invocation is (any flags, any behaviour of either node's server, any answers, any `inc`,
+any `sha`): content of either node is handed on for execution only with the checksum stored for
+*its* URL; cache files and stored checksums change only after trust, node by node; unapproved new or
+changed content of either node ends in 104 with nothing run. -/
+theorem C20_chain_trust (sha : Content → Sum) (inc : Content → Url → Option Url) (h : List CEv) (st : CStep) :
+    TrustChain sha inc (reachChainEv sha inc h) st :=
+  trustChain sha inc _ st
 
-def AlwaysChain (sha : Content → Sum) (inc : Content → Option Url) (P : RState → CStep → Prop) :
-    RState → List CStep → Prop
+def AlwaysChain (sha : Content → Sum) (inc : Content → Url → Option Url) (P : RState → CStep → Prop) :
+    RState → List CEv → Prop
   | _, [] => True
-  | s, st :: rest => P s st ∧ AlwaysChain sha inc P (invokeChain sha inc s st).2 rest
+  | s, .step st :: rest => P s st ∧ AlwaysChain sha inc P (invokeChain sha inc s st).2 rest
+  | s, .pre p :: rest => AlwaysChain sha inc P (applyPre sha s p) rest
 
-/-- the same, for every step *inside* an arbitrary history -/
-theorem C20_chain_trust_always (sha : Content → Sum) (inc : Content → Option Url) (h : List CStep) :
+/-- the same, for every invocation *inside* an arbitrary history -/
+theorem C20_chain_trust_always (sha : Content → Sum) (inc : Content → Url → Option Url) (h : List CEv) :
     AlwaysChain sha inc (TrustChain sha inc) RState.init h := by
-  suffices ∀ s, Inv sha s → AlwaysChain sha inc (TrustChain sha inc) s h from this _ (inv_init sha)
+  suffices ∀ s, AlwaysChain sha inc (TrustChain sha inc) s h from this _
   induction h with
-  | nil => intro _ _; trivial
-  | cons st rest ih =>
-    intro s hs
-    exact ⟨trustChain sha inc s st hs, ih _ (inv_invokeChainWith false sha inc s st hs)⟩
+  | nil => intro _; trivial
+  | cons ev rest ih =>
+    intro s
+    cases ev with
+    | step st => exact ⟨trustChain sha inc s st, ih _⟩
+    | pre p => exact ih _
 
 /-- a chain whose contents include nothing remote is exactly the single-node invocation above -/
 theorem C20_chain_extends (sha : Content → Sum) (s : RState) (st : CStep) :
-    invokeChain sha (fun _ => none) s st = (liftResult (invoke sha s st.base).1, (invoke sha s st.base).2) :=
+    invokeChain sha (fun _ _ => none) s st = (liftResult (invoke sha s st.base).1, (invoke sha s st.base).2) :=
   invokeChainWith_noinc false sha s st
 
 /-! ## Offline: no network use, for either node -/
@@ -967,7 +1324,7 @@ theorem C20_chain_extends (sha : Content → Sum) (s : RState) (st : CStep) :
 /-- **C20_chain_offline_no_network**: under `--offline` the outcome of the whole chain and the
 cache it leaves do not depend on what either server would do, nor on the answers: nothing is
 asked of the network and nobody is prompted. -/
-theorem C20_chain_offline_no_network (sha : Content → Sum) (inc : Content → Option Url) (s : RState)
+theorem C20_chain_offline_no_network (sha : Content → Sum) (inc : Content → Url → Option Url) (s : RState)
     (st st' : CStep) (ho : st.base.flags.offline = true)
     (hdt : st'.base.dt = st.base.dt) (hurl : st'.base.url = st.base.url) (hf : st'.base.flags = st.base.flags) :
     invokeChain sha inc s st' = invokeChain sha inc s st := by
@@ -983,61 +1340,72 @@ theorem C20_chain_offline_no_network (sha : Content → Sum) (inc : Content → 
       | false => rfl
       | true => simp [flagsOk, hd, ho] at hok
     unfold invokeChain invokeChainWith
-    simp only [hgate, hg, hdt, hurl, hf, hopRead, node_offline _ _ _ _ _ _ _ ho hd, spent_offline _ _ _ _ ho hd]
+    simp only [hgate, hg, hdt, hurl, hf, hopRead, node_offline _ _ _ _ _ _ _ _ ho hd, spent_offline _ _ _ _ _ ho hd]
 
-/-- **C20_chain_offline**: with cached copies `c1` of node 1 and — if `c1` includes a remote
-Taskfile — `c2` of that one (approved ones, by the invariant), `--offline` runs exactly these, for
-every expiry, clock, server behaviour and answer, and touches nothing. -/
-theorem C20_chain_offline (sha : Content → Sum) (inc : Content → Option Url) (h : List CStep) (st : CStep)
+/-- the URL node 1's includes are resolved against when node 1 comes out of the cache: the location
+stored with the cached copy -/
+def cbase (s : RState) (st : CStep) : Url := baseOf st.base.url (s.ent st.base.url.id)
+
+/-- node 1 comes out of the cache untouched ⇒ its includes are resolved against the stored location -/
+theorem base1_of_cached (legacy sha s st r) (h : read1 legacy sha s st = (r, s.ent st.base.url.id)) :
+    base1 legacy sha s st = cbase s st := by
+  simp [base1, cbase, h]
+
+/-- **C20_chain_offline**: in any state, with usable cached copies `c1` of node 1 and — if `c1`,
+seen from the location stored with it, includes a remote Taskfile — `c2` of that one, `--offline`
+runs exactly these, for every expiry, clock, server behaviour and answer, and touches nothing. -/
+theorem C20_chain_offline (sha : Content → Sum) (inc : Content → Url → Option Url) (s : RState) (st : CStep)
     (c1 : Content) (hg : gate st.base = none) (ho : st.base.flags.offline = true)
     (hcl : st.base.flags.clearCache = false)
-    (hc1 : ((reachChain sha inc h).ent st.base.url.id).content = some c1) :
-    ((reachChain sha inc h).ent st.base.url.id).sum = some (sha c1) ∧
-    (inc c1 = none →
-      (invokeChain sha inc (reachChain sha inc h) st).1 = .run c1 none ∧
-      ∀ v, (invokeChain sha inc (reachChain sha inc h) st).2.ent v = (reachChain sha inc h).ent v) ∧
-    (∀ u2 c2, inc c1 = some u2 → u2.id ≠ st.base.url.id → gate2 st.base.flags u2 = none →
-      ((reachChain sha inc h).ent u2.id).content = some c2 →
-      (invokeChain sha inc (reachChain sha inc h) st).1 = .run c1 (some c2) ∧
-      ((reachChain sha inc h).ent u2.id).sum = some (sha c2) ∧
-      ∀ v, (invokeChain sha inc (reachChain sha inc h) st).2.ent v = (reachChain sha inc h).ent v) ∧
-    (∀ u2, inc c1 = some u2 → u2.id ≠ st.base.url.id → gate2 st.base.flags u2 = none →
-      ((reachChain sha inc h).ent u2.id).content = none →
-      (invokeChain sha inc (reachChain sha inc h) st).1 = .error 106) := by
-  generalize hs : reachChain sha inc h = s at *
-  have hinv : Inv sha s := hs ▸ inv_reachChain sha inc h
+    (hc1 : usable sha (s.ent st.base.url.id) = some c1) :
+    (s.ent st.base.url.id).sum = some (sha c1) ∧
+    (inc c1 (cbase s st) = none →
+      (invokeChain sha inc s st).1 = .run c1 none ∧
+      ∀ v, (invokeChain sha inc s st).2.ent v = s.ent v) ∧
+    (∀ u2 c2, inc c1 (cbase s st) = some u2 → u2.id ≠ st.base.url.id → gate2 st.base.flags u2 = none →
+      usable sha (s.ent u2.id) = some c2 →
+      (invokeChain sha inc s st).1 = .run c1 (some c2) ∧
+      (s.ent u2.id).sum = some (sha c2) ∧
+      ∀ v, (invokeChain sha inc s st).2.ent v = s.ent v) ∧
+    (∀ u2, inc c1 (cbase s st) = some u2 → u2.id ≠ st.base.url.id → gate2 st.base.flags u2 = none →
+      usable sha (s.ent u2.id) = none →
+      (invokeChain sha inc s st).1 = .error 106) := by
   have hd : st.base.flags.download = false := by
     have hok := ((gate_none_iff st.base).mp hg).1
     cases hd : st.base.flags.download with
     | false => rfl
     | true => simp [flagsOk, hd, ho] at hok
   have hr1 : read1 false sha s st = (.run c1, s.ent st.base.url.id) := by
-    show readRemote _ _ _ _ _ _ _ = _
-    rw [node_offline _ _ _ _ _ _ _ ho hd, hc1]
+    show readRemote _ _ _ _ _ _ _ _ = _
+    rw [node_offline _ _ _ _ _ _ _ _ ho hd, hc1]
+  have hb := base1_of_cached false sha s st _ hr1
   have h1 : (read1 false sha s st).1 = .run c1 := by rw [hr1]
   have hsame1 : ∀ v, (after1 false sha s st).ent v = s.ent v := by
     intro v
     by_cases hv : v = st.base.url.id
     · subst hv; rw [after1_ent_same, hr1]
     · exact after1_ent_other _ _ _ _ _ hv
-  refine ⟨hinv _ c1 hc1, ?_, ?_, ?_⟩
+  refine ⟨usable_sum sha _ c1 hc1, ?_, ?_, ?_⟩
   · intro hi
+    rw [← hb] at hi
     unfold invokeChain
     rw [invokeChainWith_single _ _ _ _ _ c1 hg h1 hi, finish_keep _ _ _ hcl]
     exact ⟨rfl, hsame1⟩
   · intro u2 c2 hi hu hg2 hc2
+    rw [← hb] at hi
     have hr2 : read2 false sha s st u2 = (.run c2, s.ent u2.id) := by
-      rw [read2_eq _ _ _ _ _ hu, node_offline _ _ _ _ _ _ _ ho hd, hc2]
+      rw [read2_eq _ _ _ _ _ hu, node_offline _ _ _ _ _ _ _ _ ho hd, hc2]
     have h2 : (read2 false sha s st u2).1 = .run c2 := by rw [hr2]
     unfold invokeChain
     rw [invokeChainWith_both _ _ _ _ _ c1 u2 c2 hg h1 hi hu hg2 h2, finish_keep _ _ _ hcl]
-    refine ⟨rfl, hinv _ c2 hc2, fun v => ?_⟩
+    refine ⟨rfl, usable_sum sha _ c2 hc2, fun v => ?_⟩
     by_cases hv : v = u2.id
     · subst hv; rw [after2_ent_same, hr2]
     · rw [after2_ent_other _ _ _ _ _ _ hv]; exact hsame1 v
   · intro u2 hi hu hg2 hc2
+    rw [← hb] at hi
     have hr2 : read2 false sha s st u2 = (.error 106, s.ent u2.id) := by
-      rw [read2_eq _ _ _ _ _ hu, node_offline _ _ _ _ _ _ _ ho hd, hc2]
+      rw [read2_eq _ _ _ _ _ hu, node_offline _ _ _ _ _ _ _ _ ho hd, hc2]
     have h2 : ∀ c, (read2 false sha s st u2).1 ≠ .run c := by intro c hc; rw [hr2] at hc; cases hc
     unfold invokeChain
     rw [invokeChainWith_err2 _ _ _ _ _ c1 u2 hg h1 hi hu hg2 h2, hr2]
@@ -1047,57 +1415,60 @@ theorem C20_chain_offline (sha : Content → Sum) (inc : Content → Option Url)
 
 /-- node 2's fetch gives no content: its server refuses / answers an HTTP error / stalls past
 `--timeout`, **or the shared deadline had passed before its read began** -/
-def Unavailable2 (s : RState) (st : CStep) : Prop :=
-  ∀ c, net2 (spent1 s st) st.base.flags st.hop.server ≠ .content c
+def Unavailable2 (sha : Content → Sum) (s : RState) (st : CStep) : Prop :=
+  ∀ c, net2 (spent1 sha s st) st.base.flags st.hop.server ≠ .content c
 
-theorem unavailable2_of_spent (s st) (h : spent1 s st = true) : Unavailable2 s st := by
+theorem unavailable2_of_spent (sha s st) (h : spent1 sha s st = true) : Unavailable2 sha s st := by
   intro c hc; unfold net2 at hc; rw [h] at hc; cases hc
 
-theorem unavailable2_of_server (s st) (h : ∀ c, net st.base.flags st.hop.server ≠ .content c) :
-    Unavailable2 s st := by
+theorem unavailable2_of_server (sha s st) (h : ∀ c, net st.base.flags st.hop.server ≠ .content c) :
+    Unavailable2 sha s st := by
   intro c hc
   exact h c (net2_content _ _ _ _ hc).2
 
-/-- **Availability of node 1** inside a chain: unavailable network + cached copy ⇒ node 1 yields
-that copy (the load goes on with it), entry untouched. -/
+/-- **Availability of node 1** inside a chain: unavailable network + usable cached copy ⇒ node 1
+yields that copy (the load goes on with it), entry untouched. -/
 theorem C20_chain_available_node1 (sha : Content → Sum) (s : RState) (st : CStep) (c1 : Content)
-    (hu : Unavailable st.base) (hc : (s.ent st.base.url.id).content = some c1) :
+    (hu : Unavailable st.base) (hc : usable sha (s.ent st.base.url.id) = some c1) :
     read1 false sha s st = (.run c1, s.ent st.base.url.id) :=
-  node_available _ _ _ _ _ _ c1 hu hc
+  node_available _ _ _ _ _ _ _ c1 hu hc
 
 /-- **Availability of node 2**: however node 1 came by the content `c1` that includes `u2` (cache or
 download), if node 2's fetch gives no content for *any* network reason — including the shared
-deadline already used up by node 1 — and a copy `c2` of `u2` is cached, then `c1` and `c2` run and
-node 2's cache entry stays as it is.  (This is the statement an early `ctx.Err()` return at the top
+deadline already used up by node 1 — and a usable copy `c2` of `u2` is cached, then `c1` and `c2` run
+and node 2's cache entry stays as it is.  (This is the statement an early `ctx.Err()` return at the top
 of `readRemoteNodeContent` falsifies.) -/
-theorem C20_chain_available_node2 (sha : Content → Sum) (inc : Content → Option Url) (s : RState)
+theorem C20_chain_available_node2 (sha : Content → Sum) (inc : Content → Url → Option Url) (s : RState)
     (st : CStep) (c1 c2 : Content) (u2 : Url)
     (hg : gate st.base = none) (hcl : st.base.flags.clearCache = false)
-    (h1 : (read1 false sha s st).1 = .run c1) (hi : inc c1 = some u2) (hu : u2.id ≠ st.base.url.id)
+    (h1 : (read1 false sha s st).1 = .run c1) (hi : inc c1 (base1 false sha s st) = some u2)
+    (hu : u2.id ≠ st.base.url.id)
     (hg2 : gate2 st.base.flags u2 = none)
-    (hdown : Unavailable2 s st) (hc2 : (s.ent u2.id).content = some c2) :
+    (hdown : Unavailable2 sha s st) (hc2 : usable sha (s.ent u2.id) = some c2) :
     (invokeChain sha inc s st).1 = .run c1 (some c2) ∧
     (invokeChain sha inc s st).2.ent u2.id = s.ent u2.id := by
   have hr2 : read2 false sha s st u2 = (.run c2, s.ent u2.id) := by
-    rw [read2_eq _ _ _ _ _ hu]; exact node_available _ _ _ _ _ _ c2 hdown hc2
+    rw [read2_eq _ _ _ _ _ hu]; exact node_available _ _ _ _ _ _ _ c2 hdown hc2
   have h2 : (read2 false sha s st u2).1 = .run c2 := by rw [hr2]
   unfold invokeChain
   rw [invokeChainWith_both _ _ _ _ _ c1 u2 c2 hg h1 hi hu hg2 h2, finish_keep _ _ _ hcl]
   exact ⟨rfl, by rw [after2_ent_same, hr2]⟩
 
 /-- The availability half of C20 for chains, at full strength: with the network unavailable
-for node 1 and — in whatever way, the spent deadline included — for node 2, cached copies are
-what runs, and the whole cache is left as it is. -/
-theorem C20_chain_available (sha : Content → Sum) (inc : Content → Option Url) (s : RState)
+for node 1 and — in whatever way, the spent deadline included — for node 2, usable cached copies are
+what runs (node 2 = what node 1's copy includes **seen from the location stored with it**, exactly
+as when it was downloaded), and the whole cache is left as it is. -/
+theorem C20_chain_available (sha : Content → Sum) (inc : Content → Url → Option Url) (s : RState)
     (st : CStep) (c1 : Content)
     (hg : gate st.base = none) (hcl : st.base.flags.clearCache = false)
-    (hu1 : Unavailable st.base) (hc1 : (s.ent st.base.url.id).content = some c1) :
-    (inc c1 = none →
+    (hu1 : Unavailable st.base) (hc1 : usable sha (s.ent st.base.url.id) = some c1) :
+    (inc c1 (cbase s st) = none →
       (invokeChain sha inc s st).1 = .run c1 none ∧ ∀ v, (invokeChain sha inc s st).2.ent v = s.ent v) ∧
-    (∀ u2 c2, inc c1 = some u2 → u2.id ≠ st.base.url.id → gate2 st.base.flags u2 = none →
-      Unavailable2 s st → (s.ent u2.id).content = some c2 →
+    (∀ u2 c2, inc c1 (cbase s st) = some u2 → u2.id ≠ st.base.url.id → gate2 st.base.flags u2 = none →
+      Unavailable2 sha s st → usable sha (s.ent u2.id) = some c2 →
       (invokeChain sha inc s st).1 = .run c1 (some c2) ∧ ∀ v, (invokeChain sha inc s st).2.ent v = s.ent v) := by
   have hr1 := C20_chain_available_node1 sha s st c1 hu1 hc1
+  have hb := base1_of_cached false sha s st _ hr1
   have h1 : (read1 false sha s st).1 = .run c1 := by rw [hr1]
   have hsame1 : ∀ v, (after1 false sha s st).ent v = s.ent v := by
     intro v
@@ -1106,12 +1477,14 @@ theorem C20_chain_available (sha : Content → Sum) (inc : Content → Option Ur
     · exact after1_ent_other _ _ _ _ _ hv
   refine ⟨?_, ?_⟩
   · intro hi
+    rw [← hb] at hi
     unfold invokeChain
     rw [invokeChainWith_single _ _ _ _ _ c1 hg h1 hi, finish_keep _ _ _ hcl]
     exact ⟨rfl, hsame1⟩
   · intro u2 c2 hi hu hg2 hdown hc2
+    rw [← hb] at hi
     have hr2 : read2 false sha s st u2 = (.run c2, s.ent u2.id) := by
-      rw [read2_eq _ _ _ _ _ hu]; exact node_available _ _ _ _ _ _ c2 hdown hc2
+      rw [read2_eq _ _ _ _ _ hu]; exact node_available _ _ _ _ _ _ _ c2 hdown hc2
     have h2 : (read2 false sha s st u2).1 = .run c2 := by rw [hr2]
     unfold invokeChain
     rw [invokeChainWith_both _ _ _ _ _ c1 u2 c2 hg h1 hi hu hg2 h2, finish_keep _ _ _ hcl]
@@ -1121,48 +1494,105 @@ theorem C20_chain_available (sha : Content → Sum) (inc : Content → Option Ur
     · rw [after2_ent_other _ _ _ _ _ _ hv]; exact hsame1 v
 
 /-- **C20_chain_deadline**: node 1's server is slower than `--timeout`, so node 1's fetch uses up
-the deadline of the whole invocation; with copies of both nodes in the cache, both run from the
-cache — **whatever node 2's server would have done** (serve new content, refuse, stall) and
+the deadline of the whole invocation; with usable copies of both nodes in the cache, both run from
+the cache — **whatever node 2's server would have done** (serve new content, refuse, stall) and
 whatever is answered — and nothing is written. -/
-theorem C20_chain_deadline (sha : Content → Sum) (inc : Content → Option Url) (s : RState)
+theorem C20_chain_deadline (sha : Content → Sum) (inc : Content → Url → Option Url) (s : RState)
     (st : CStep) (c1 c2 : Content) (u2 : Url)
     (hg : gate st.base = none) (hcl : st.base.flags.clearCache = false)
-    (hw : wantsFetch (s.now + st.base.dt) (s.ent st.base.url.id) st.base.flags = true)
+    (hw : wantsFetch sha (s.now + st.base.dt) (s.ent st.base.url.id) st.base.flags = true)
     (hn : net st.base.flags st.base.server = .timedOut)
-    (hc1 : (s.ent st.base.url.id).content = some c1)
-    (hi : inc c1 = some u2) (hu : u2.id ≠ st.base.url.id) (hg2 : gate2 st.base.flags u2 = none)
-    (hc2 : (s.ent u2.id).content = some c2) :
+    (hc1 : usable sha (s.ent st.base.url.id) = some c1)
+    (hi : inc c1 (cbase s st) = some u2) (hu : u2.id ≠ st.base.url.id) (hg2 : gate2 st.base.flags u2 = none)
+    (hc2 : usable sha (s.ent u2.id) = some c2) :
     (invokeChain sha inc s st).1 = .run c1 (some c2) ∧ ∀ v, (invokeChain sha inc s st).2.ent v = s.ent v := by
-  have hsp : spent1 s st = true := by simp [spent1, spent, hn, hw]
+  have hsp : spent1 sha s st = true := by simp [spent1, spent, hn, hw]
   exact (C20_chain_available sha inc s st c1 hg hcl (unavailable_of_timedOut _ _ hn) hc1).2
-    u2 c2 hi hu hg2 (unavailable2_of_spent s st hsp) hc2
+    u2 c2 hi hu hg2 (unavailable2_of_spent sha s st hsp) hc2
 
-/-- … over histories: after any history of chain invocations, cached copies of the two nodes are
-approved ones, and they run when the network is unavailable for each in whatever way. -/
-theorem C20_chain_available_reach (sha : Content → Sum) (inc : Content → Option Url) (h : List CStep)
-    (st : CStep) (c1 c2 : Content) (u2 : Url)
-    (hg : gate st.base = none) (hcl : st.base.flags.clearCache = false)
-    (hu1 : Unavailable st.base) (hc1 : ((reachChain sha inc h).ent st.base.url.id).content = some c1)
-    (hi : inc c1 = some u2) (hu : u2.id ≠ st.base.url.id) (hg2 : gate2 st.base.flags u2 = none)
-    (hdown : Unavailable2 (reachChain sha inc h) st)
-    (hc2 : ((reachChain sha inc h).ent u2.id).content = some c2) :
-    (invokeChain sha inc (reachChain sha inc h) st).1 = .run c1 (some c2) ∧
-    ((reachChain sha inc h).ent st.base.url.id).sum = some (sha c1) ∧
-    ((reachChain sha inc h).ent u2.id).sum = some (sha c2) :=
-  ⟨((C20_chain_available sha inc _ st c1 hg hcl hu1 hc1).2 u2 c2 hi hu hg2 hdown hc2).1,
-   inv_reachChain sha inc h _ c1 hc1, inv_reachChain sha inc h _ c2 hc2⟩
+/-! ## The same nodes from the cache as online (fix R8-2) -/
 
-/-- the driver's `observeChain` yields the results of `runChainWith` -/
-theorem observeChain_results (legacy sha inc k) (h : List CStep) : ∀ s,
-    (observeChain legacy sha inc k s h).map (·.1) = (runChainWith legacy sha inc s h).1 := by
+/-- the location node 1's includes were resolved against in an invocation that went on past node 1 is
+the one stored with node 1's copy afterwards — what every later read from the cache will use -/
+theorem base1_stored (legacy sha s st) (st' : CStep) (hurl : st'.base.url = st.base.url) :
+    cbase (after1 legacy sha s st) st' = base1 legacy sha s st := by
+  simp [cbase, base1, hurl, after1_ent_same]
+
+/-- **C20_chain_same_nodes**: an invocation — online, in whatever state — read node 1 and the node 2
+its content includes, and ran `c1` and `c2`.  Then the next invocation of the same entrypoint that gets
+nothing from the network (`--offline`, or both servers unavailable) reaches **the same two nodes** and
+runs the same `c1` and `c2` from the cache, touching nothing: whether node 1 was found under a default
+name of a directory-style URL or not, its relative includes mean the same files from the cache as they
+did online.  (Before the fix `inc` was evaluated at the entrypoint URL whenever node 1 came out of the
+cache: `--offline` ended with 106 for a URL nobody had ever downloaded, and with an unexpired cache a
+different file was fetched, prompted for and run.) -/
+theorem C20_chain_same_nodes (sha : Content → Sum) (inc : Content → Url → Option Url) (s : RState)
+    (st st' : CStep) (c1 c2 : Content)
+    (hrun : (invokeChain sha inc s st).1 = .run c1 (some c2))
+    (hurl : st'.base.url = st.base.url) (hg' : gate st'.base = none)
+    (hcl' : st'.base.flags.clearCache = false) (hins : st'.base.flags.insecure = st.base.flags.insecure)
+    (hdown : st'.base.flags.offline = true ∨
+      (Unavailable st'.base ∧ ∀ c, net st'.base.flags st'.hop.server ≠ .content c)) :
+    (invokeChain sha inc (invokeChain sha inc s st).2 st').1 = .run c1 (some c2) ∧
+    ∀ v, (invokeChain sha inc (invokeChain sha inc s st).2 st').2.ent v = (invokeChain sha inc s st).2.ent v := by
+  unfold invokeChain at hrun
+  cases shape false sha inc s st with
+  | gated code _ he => rw [he] at hrun; cases hrun
+  | err1 _ hn he => rw [he] at hrun; exact absurd hrun (liftErr_ne_run _ hn _ _)
+  | cycle c1' u2 _ _ _ _ he => rw [he] at hrun; cases hrun
+  | gated2 c1' u2 code _ _ _ _ _ he => rw [he] at hrun; cases hrun
+  | err2 c1' u2 _ _ _ _ _ hn he => rw [he] at hrun; exact absurd hrun (liftErr_ne_run _ hn _ _)
+  | single c1' _ h1 hinc he =>
+    rw [he] at hrun
+    cases hc : st.base.flags.clearCache with
+    | true => rw [finish_clear _ _ _ hc] at hrun; cases hrun
+    | false => rw [finish_keep _ _ _ hc] at hrun; cases hrun
+  | both c1' u2 c2' hg h1 hinc hu hg2 h2 he =>
+    cases hc : st.base.flags.clearCache with
+    | true => rw [he, finish_clear _ _ _ hc] at hrun; cases hrun
+    | false =>
+      have hs' : (invokeChain sha inc s st).2 = after2 false sha s st u2 := by
+        unfold invokeChain; rw [he, finish_keep _ _ _ hc]
+      rw [he, finish_keep _ _ _ hc] at hrun
+      cases hrun
+      rw [hs']
+      -- the cache after the first invocation
+      have he1 : (after2 false sha s st u2).ent st.base.url.id = (read1 false sha s st).2 := by
+        rw [after2_ent_other _ _ _ _ _ _ (Ne.symm hu), after1_ent_same]
+      have hu1 : usable sha ((after2 false sha s st u2).ent st'.base.url.id) = some c1 := by
+        rw [hurl, he1]; exact readRemote_run_usable _ _ _ _ _ _ _ _ _ h1
+      have hu2 : usable sha ((after2 false sha s st u2).ent u2.id) = some c2 := by
+        rw [after2_ent_same]
+        have h2' := h2
+        rw [read2_eq _ _ _ _ _ hu] at h2' ⊢
+        exact readRemote_run_usable _ _ _ _ _ _ _ _ _ h2'
+      have hb : cbase (after2 false sha s st u2) st' = base1 false sha s st := by
+        simp [cbase, base1, hurl, he1]
+      have hi' : inc c1 (cbase (after2 false sha s st u2) st') = some u2 := by rw [hb]; exact hinc
+      have hu' : u2.id ≠ st'.base.url.id := by rw [hurl]; exact hu
+      have hg2' : gate2 st'.base.flags u2 = none := by
+        simpa [gate2, hins] using hg2
+      rcases hdown with ho | ⟨hd1, hd2⟩
+      · have := (C20_chain_offline sha inc _ st' c1 hg' ho hcl' hu1).2.2.1 u2 c2 hi' hu' hg2' hu2
+        exact ⟨this.1, this.2.2⟩
+      · exact (C20_chain_available sha inc _ st' c1 hg' hcl' hd1 hu1).2 u2 c2 hi' hu' hg2'
+          (unavailable2_of_server sha _ st' hd2) hu2
+
+/-- the driver's `observeChain` yields the results of `runChainEvWith` -/
+theorem observeChain_results (legacy sha inc k) (h : List CEv) : ∀ s,
+    (observeChain legacy sha inc k s h).map (·.1) = (runChainEvWith legacy sha inc s h).1 := by
   induction h with
   | nil => intro s; rfl
-  | cons st rest ih => intro s; simp only [observeChain, runChainWith, List.map_cons]; rw [ih]
+  | cons ev rest ih =>
+    intro s
+    cases ev with
+    | step st => simp only [observeChain, runChainEvWith, List.map_cons]; rw [ih]
+    | pre p => simp only [observeChain, runChainEvWith]; rw [ih]
 
 /-! ## Non-vacuity: concrete chains -/
 
-/-- content 11 (at URL 0) includes URL 1; everything else includes nothing -/
-private def inc1 : Content → Option Url := fun c => if c = 11 then some ⟨1, false⟩ else none
+/-- content 11 (at URL 0) includes URL 1, from wherever it is seen; everything else includes nothing -/
+private def inc1 : Content → Url → Option Url := fun c _ => if c = 11 then some ⟨1, false⟩ else none
 private def hopServe (c : Content) : Hop := ⟨.serve c, .noTerminal⟩
 /-- download and approve A = 11 (which includes B) and B = 2, `--yes` -/
 private def cGet : CStep := ⟨⟨0, url0, yesFlags, .serve 11, .noTerminal⟩, hopServe 2⟩
@@ -1181,13 +1611,14 @@ private def cOffline : CStep := ⟨⟨0, url0, { noFlags with offline := true },
 -- node 2's server would have served (unapproved) version 3 at once; the cache is as it was
 example : (runChain id inc1 RState.init [cGet, cStallA, cStallBoth, cRefuseB]).1
     = [.run 11 (some 2), .run 11 (some 2), .run 11 (some 2), .run 11 (some 2)] := by decide
-example : ((runChain id inc1 RState.init [cGet, cStallA]).2.ent 1).content = some 2 := by decide
+example : usable id ((runChain id inc1 RState.init [cGet, cStallA]).2.ent 1) = some 2 := by decide
 -- hypotheses of `C20_chain_deadline` are met by `cStallA` after `cGet`
 example : gate cStallA.base = none ∧ cStallA.base.flags.clearCache = false ∧
-    wantsFetch ((reachChain id inc1 [cGet]).now + 0) ((reachChain id inc1 [cGet]).ent 0) cStallA.base.flags = true ∧
+    wantsFetch id ((reachChain id inc1 [cGet]).now + 0) ((reachChain id inc1 [cGet]).ent 0) cStallA.base.flags = true ∧
     net cStallA.base.flags cStallA.base.server = .timedOut ∧
-    ((reachChain id inc1 [cGet]).ent 0).content = some 11 ∧ inc1 11 = some ⟨1, false⟩ ∧
-    gate2 cStallA.base.flags ⟨1, false⟩ = none ∧ ((reachChain id inc1 [cGet]).ent 1).content = some 2 := by decide
+    usable id ((reachChain id inc1 [cGet]).ent 0) = some 11 ∧
+    inc1 11 (cbase (reachChain id inc1 [cGet]) cStallA) = some ⟨1, false⟩ ∧
+    gate2 cStallA.base.flags ⟨1, false⟩ = none ∧ usable id ((reachChain id inc1 [cGet]).ent 1) = some 2 := by decide
 -- without a copy of node 2 the spent deadline is 108; without one of node 1, node 2 is not read
 example : (runChain id inc1 RState.init [⟨cGet.base, ⟨.fail .refused, .noTerminal⟩⟩, cStallA]).1
     = [.error 103, .error 108] := by decide
@@ -1198,16 +1629,172 @@ example : (runChain id inc1 RState.init [cGet, cChangedB, cOffline, cAcceptB, cO
     = [.run 11 (some 2), .error 104, .run 11 (some 2), .run 11 (some 3), .run 11 (some 3)] := by decide
 -- hypotheses of `unapproved2_refused` are met by `cChangedB` after `cGet`
 example : (read1 false id (reachChain id inc1 [cGet]) cChangedB).1 = .run 11 ∧
-    wantsFetch ((reachChain id inc1 [cGet]).now + 0) ((reachChain id inc1 [cGet]).ent 1) cChangedB.base.flags = true ∧
-    net2 (spent1 (reachChain id inc1 [cGet]) cChangedB) cChangedB.base.flags cChangedB.hop.server = .content 3 ∧
+    wantsFetch id ((reachChain id inc1 [cGet]).now + 0) ((reachChain id inc1 [cGet]).ent 1) cChangedB.base.flags = true ∧
+    net2 (spent1 id (reachChain id inc1 [cGet]) cChangedB) cChangedB.base.flags cChangedB.hop.server = .content 3 ∧
     ((reachChain id inc1 [cGet]).ent 1).sum ≠ some (id 3) ∧
     approves cChangedB.base.flags cChangedB.hop.answer = false := by decide
 -- first use of the pair with node 2 declined: node 1 is downloaded, approved and cached, node 2
 -- is not, nothing runs
-example : (observeChain false id inc1 2 RState.init [⟨⟨0, url0, noFlags, .serve 11, .accept⟩, ⟨.serve 2, .decline⟩⟩]).map
-    (fun o => (o.1, o.2.map (·.content))) = [(.error 104, [some 11, none])] := by decide
+example : (observeChain false id inc1 2 RState.init
+      [.step ⟨⟨0, url0, noFlags, .serve 11, .accept⟩, ⟨.serve 2, .decline⟩⟩]).map
+    (fun o => (o.1, o.1.trace, o.2.map (·.content))) = [(.error 104, [], [some 11, none])] := by decide
 -- content that includes its own URL: cycle error 110
-example : (runChain id (fun c => if c = 5 then some url0 else none) RState.init
+example : (runChain id (fun c _ => if c = 5 then some url0 else none) RState.init
     [⟨⟨0, url0, yesFlags, .serve 5, .noTerminal⟩, hopServe 1⟩]).1 = [.error 110] := by decide
+
+/-! ### A directory-style URL with a relative include
+
+URL 7 (`http://host/dd`) is a directory: the Taskfile is found under the default name URL 10
+(`http://host/dd/Taskfile.yml`).  Content 71 includes `./inc.yml`: seen from URL 10 that is URL 8
+(`/dd/inc.yml`), seen from URL 7 itself it is URL 9 (`/inc.yml`). -/
+private def url7 : Url := ⟨7, false⟩
+private def incDir : Content → Url → Option Url := fun c b =>
+  if c = 71 then (if b.id = 10 then some ⟨8, false⟩ else if b.id = 7 then some ⟨9, false⟩ else none) else none
+private def dGet : CStep := ⟨⟨0, url7, yesFlags, .dir ⟨10, false⟩ (.serve 71), .noTerminal⟩, hopServe 2⟩
+private def dOffline : CStep :=
+  ⟨⟨0, url7, { noFlags with offline := true }, .dir ⟨10, false⟩ (.serve 71), .noTerminal⟩, hopServe 9⟩
+private def dHour : CStep :=
+  ⟨⟨0, url7, { noFlags with expiry := 1 }, .dir ⟨10, false⟩ (.serve 72), .noTerminal⟩, hopServe 9⟩
+private def dDown : CStep := ⟨⟨0, url7, noFlags, .fail .refused, .noTerminal⟩, ⟨.fail .refused, .noTerminal⟩⟩
+
+-- online, then `--offline`, then with an unexpired cache, then with the server down: always the
+-- same two nodes (URL 7 and URL 8); URL 9 is never looked at, its entry stays empty
+example : (observeChain false id incDir 10 RState.init [.step dGet, .step dOffline, .step dHour, .step dDown]).map
+    (fun o => (o.1, (o.2.map (·.content)).drop 7)) =
+    [(.run 71 (some 2), [some 71, some 2, none]), (.run 71 (some 2), [some 71, some 2, none]),
+     (.run 71 (some 2), [some 71, some 2, none]), (.run 71 (some 2), [some 71, some 2, none])] := by decide
+-- the location is stored with the copy
+example : ((reachChain id incDir [dGet]).ent 7).loc = some ⟨10, false⟩ ∧
+    cbase (reachChain id incDir [dGet]) dOffline = ⟨10, false⟩ := by decide
+-- hypotheses of `C20_chain_same_nodes` are met by `dOffline` after `dGet`
+example : (invokeChain id incDir RState.init dGet).1 = .run 71 (some 2) ∧ gate dOffline.base = none ∧
+    dOffline.base.flags.offline = true := by decide
+-- a copy from before the location was stored (`loc = none`) falls back to the URL itself
+example : baseOf url7 ⟨some 71, some 71, some 0, none⟩ = url7 := by decide
+-- a default name that stalls past `--timeout`: 108, as for a file URL (fix R8-6)
+example : (runChain id incDir RState.init
+    [⟨⟨0, url7, yesFlags, .dir ⟨10, false⟩ (.slow 71), .noTerminal⟩, hopServe 2⟩]).1 = [.error 108] := by decide
+
+/-! # Trees: sibling includes and chains of any depth
+
+`TaskModel.Remote.Tree`: `invokeTree sha inc s st` reads the root, every remote Taskfile its content
+includes (`inc c b : List Url` — siblings, read concurrently by the code, each with its own cache entry,
+server behaviour and prompt answer `st.world`), every remote Taskfile those include, and so on; every
+node by the same `readRemote`.  The layered approach carries: the per-node lemmas lift by one
+induction over the depth (`readTree_good`).  Limit: a Taskfile reachable along two paths is read
+once by the code and once per path by the model — the theorems below are for invocations that look at
+no URL twice (`Nodup` of the URLs read), which is what the harness generates. -/
+
+theorem invokeTree_run (sha inc s st t) (h : (invokeTree sha inc s st).1 = .run t) :
+    gateT st = none ∧ st.flags.clearCache = false ∧ (readOf false sha inc s st).errs = [] ∧
+    t = (readOf false sha inc s st).trace ∧ (invokeTree sha inc s st).2 = (readOf false sha inc s st).state := by
+  cases hg : gateT st with
+  | some code => simp [invokeTree, invokeTreeWith, hg] at h
+  | none =>
+    cases he : (readOf false sha inc s st).errs with
+    | cons e es => simp [invokeTree, invokeTreeWith, hg, he] at h
+    | nil =>
+      cases hc : st.flags.clearCache with
+      | true => simp [invokeTree, invokeTreeWith, hg, he, hc] at h
+      | false =>
+        simp only [invokeTree, invokeTreeWith, hg, he, hc, Bool.false_eq_true, if_false] at h ⊢
+        cases h
+        simp
+
+/-- **C20_tree_trust**: an invocation that read a tree of remote Taskfiles (no URL twice) and executed
+it: **every** node that ran — the root, each of several sibling includes, a node at any depth — has the
+checksum that is now the stored one for *its* URL, its cached copy is what ran, and that checksum
+was stored before the invocation or a prompt for exactly it was due and passed with the answer given
+for *that* URL (or `--yes`).  In every state, for every `inc`, `sha`, flags, servers and answers. -/
+theorem C20_tree_trust (sha : Content → Sum) (inc : Content → Url → List Url) (s : RState) (st : TStep)
+    (t : List (Nat × Content)) (hrun : (invokeTree sha inc s st).1 = .run t)
+    (htree : (readOf false sha inc s st).touched.Nodup) :
+    ∀ v c, (v, c) ∈ t → NodeOk sha st.flags st.world s (invokeTree sha inc s st).2 v c := by
+  obtain ⟨_, _, _, ht, hs⟩ := invokeTree_run sha inc s st t hrun
+  intro v c hm
+  rw [ht] at hm
+  rw [hs]
+  have := (readTree_good false sha inc st.flags (s.now + st.dt) st.world treeFuel [] false).trust
+    st.url (s.tick st.dt) htree v c hm
+  exact this
+
+/-- cache entries of URLs the load did not look at are as before (unless the whole cache is cleared) -/
+theorem C20_tree_frame (sha : Content → Sum) (inc : Content → Url → List Url) (s : RState) (st : TStep)
+    (v : Nat) (hv : v ∉ (readOf false sha inc s st).touched) (hc : (invokeTree sha inc s st).1 ≠ .cleared) :
+    (invokeTree sha inc s st).2.ent v = s.ent v := by
+  have hfr : (readOf false sha inc s st).state.ent v = s.ent v :=
+    (readTree_good false sha inc st.flags (s.now + st.dt) st.world treeFuel [] false).frame
+      st.url (s.tick st.dt) v hv
+  cases hg : gateT st with
+  | some code => simp [invokeTree, invokeTreeWith, hg]
+  | none =>
+    cases he : (readOf false sha inc s st).errs with
+    | cons e es => simp only [invokeTree, invokeTreeWith, hg, he]; exact hfr
+    | nil =>
+      cases hcl : st.flags.clearCache with
+      | true => simp [invokeTree, invokeTreeWith, hg, he, hcl] at hc
+      | false => simp only [invokeTree, invokeTreeWith, hg, he, hcl, Bool.false_eq_true, if_false]; exact hfr
+
+/-- all or nothing: a load in which any node fails — one sibling out of several, a node three levels
+down — executes nothing, whichever of the failing nodes' errors is reported -/
+theorem C20_tree_error_runs_nothing (sha : Content → Sum) (inc : Content → Url → List Url) (s : RState)
+    (st : TStep) (h : (invokeTree sha inc s st).1.exit ≠ 0) : (invokeTree sha inc s st).1.trace = [] := by
+  cases hr : (invokeTree sha inc s st).1 with
+  | run t => rw [hr] at h; exact absurd rfl h
+  | cleared => rfl
+  | error code => rfl
+
+/-- the same for one node and for chains: a non-zero exit status means nothing was executed -/
+theorem C20_error_runs_nothing (r : RResult) (h : r.exit ≠ 0) : r.trace = [] := by
+  cases r with
+  | run c => exact absurd rfl h
+  | cleared => rfl
+  | error code => rfl
+
+theorem C20_chain_error_runs_nothing (r : CResult) (h : r.exit ≠ 0) : r.trace = [] := by
+  cases r with
+  | run c1 c2 => exact absurd rfl h
+  | cleared => rfl
+  | error code => rfl
+
+/-! ### Non-vacuity: siblings and a chain of three -/
+
+/-- content 91 (URL 0) includes URL 1 and URL 3; content 41 (URL 0) includes URL 1; content 62 (URL 1)
+includes URL 3 -/
+private def incT : Content → Url → List Url := fun c _ =>
+  if c = 91 then [⟨1, false⟩, ⟨3, false⟩] else if c = 41 then [⟨1, false⟩] else if c = 62 then [⟨3, false⟩] else []
+private def wServe (a b c : Content) : List (Nat × Hop) :=
+  [(0, ⟨.serve a, .noTerminal⟩), (1, ⟨.serve b, .noTerminal⟩), (3, ⟨.serve c, .noTerminal⟩)]
+private def tGet : TStep := ⟨0, url0, yesFlags, wServe 91 2 3, 0⟩
+/-- no `--yes`, no terminal: sibling C changed to 4, sibling B stalls past the timeout -/
+private def tChangedC : TStep :=
+  ⟨0, url0, noFlags, [(0, ⟨.serve 91, .noTerminal⟩), (1, ⟨.slow 2, .noTerminal⟩), (3, ⟨.serve 4, .noTerminal⟩)], 104⟩
+private def tOffline : TStep := ⟨0, url0, { noFlags with offline := true }, wServe 91 7 8, 0⟩
+private def t3Get : TStep := ⟨0, url0, yesFlags, wServe 41 62 3, 0⟩
+/-- A stalls past `--timeout`: B and C, two levels down, are read under the spent deadline -/
+private def t3StallA : TStep :=
+  ⟨0, url0, yesFlags, [(0, ⟨.slow 41, .noTerminal⟩), (1, ⟨.serve 63, .noTerminal⟩), (3, ⟨.serve 9, .noTerminal⟩)], 0⟩
+
+-- siblings: both are read and run; a changed sibling without approval: 104, nothing runs, and the other
+-- sibling's stalled fetch falls back to its copy all the same; offline runs the three copies
+example : ((invokeTree id incT RState.init tGet).1,
+    (invokeTree id incT (invokeTree id incT RState.init tGet).2 tChangedC).1,
+    (invokeTree id incT (invokeTree id incT RState.init tGet).2 tOffline).1)
+    = (.run [(0, 91), (1, 2), (3, 3)], .error 104, .run [(0, 91), (1, 2), (3, 3)]) := by decide
+-- a chain of three; with A stalling, all three come out of the cache although B's and C's servers
+-- would have served new versions
+example : ((invokeTree id incT RState.init t3Get).1,
+    (invokeTree id incT (invokeTree id incT RState.init t3Get).2 t3StallA).1)
+    = (.run [(0, 41), (1, 62), (3, 3)], .run [(0, 41), (1, 62), (3, 3)]) := by decide
+-- hypotheses of `C20_tree_trust` are met
+example : (readOf false id incT RState.init tGet).touched = [0, 1, 3] ∧
+    (readOf false id incT RState.init t3Get).touched = [0, 1, 3] := by decide
+-- two failing siblings: the error reported is the environment's choice among theirs
+example : (invokeTree id incT RState.init
+    ⟨0, url0, yesFlags, [(0, ⟨.serve 91, .noTerminal⟩), (1, ⟨.fail .notFound, .noTerminal⟩), (3, ⟨.fail .refused, .noTerminal⟩)], 103⟩).1
+    = .error 103 ∧
+    (invokeTree id incT RState.init
+    ⟨0, url0, yesFlags, [(0, ⟨.serve 91, .noTerminal⟩), (1, ⟨.fail .notFound, .noTerminal⟩), (3, ⟨.fail .refused, .noTerminal⟩)], 7⟩).1
+    = .error 100 := by decide
 
 end Props.C20
